@@ -12,1120 +12,2746 @@ Definition show_fres (r : fres) : string :=
   end.
 Definition check (rs : list rune) : string := digest (show_fres (format_res rs)).
 Definition full (rs : list rune) : string := show_fres (format_res rs).
-Eval vm_compute in ("<<<M134>>>" ++ check (runes_of_ascii "packet int
-    {
-match Pad as	Z9_ { [65535,
-    ""// no comment"" , ""a	b""//x
-, // " ++ [128512]%N ++ runes_of_ascii " emoji
-""CRC32"" ,
-00 , 0123456789 , 0]
-:  Z9_
-4294967296
-: stringy ,""""//
-: f32a
-    ,
-"""" :
-//	t
-// " ++ [27880; 37322]%N ++ runes_of_ascii "
-Header, [""it's"" , 1,""1"" ] :
-msg_type , } , @leftPad ( )
-f32 Foo
-    // `tick` ""quote"" 'q'
-    ``	, charz {
-repeat int8
-options1  ,repeat  char[]
-T
-,
-repeat string
-crc // c
-`doc`
-    //x
-    , uint8x`a\`
-    ,} ,} packet
-    Logon{ A, u8
-metadata , @lengthOf( trueish )
-// a // b
-// packet A { u8 x, }
-@lengthOf(u8x) @lengthOf( A)
-    // " ++ [27880; 37322]%N ++ runes_of_ascii "
-    repeat string
-trueish
-    // " ++ [128512]%N ++ runes_of_ascii " emoji
-    , @tag( 3) match
-    rootA as
-    Pad // @lengthOf(
-{42 :msg_type,[ 0
-    // a // b
-    ,
-// trailing space 
-// `tick` ""quote"" 'q'
-""" ++ [128512]%N ++ runes_of_ascii """ ,00
-] : asx
-, [ """ ++ [233]%N ++ runes_of_ascii "t" ++ [233]%N ++ runes_of_ascii """ ,""{,}""
-,""" ++ [233]%N ++ runes_of_ascii "t" ++ [233]%N ++ runes_of_ascii """ , 255 ] //	t
-:T ""x y"" : calculatedFrom
-[
-""a	b""	,0123456789	,
-    ""{,}"" ,
-    3 , 3
-, 7 ,
-    4294967296 ,  4294967296 ]: Header , [0,4294967296,
-    10
-    // packet A { u8 x, }
-    ,
-007 , 007 ,1 , ""1"",	""`tick`""
-    //	t
-    ] : Packet }/// triple
-,
-    zchar[
-0
-    ] asx @lengthOf( x_y_z
-    )
-`{ , }`
-,
-repeat char[
-    7 ] leftPad, stringy`` , falsey //
-repeatCount
-`{ , }` ,}packet
-    MetaDataX // packet A { u8 x, }
-{
-options1,	}
-    // " ++ [27880; 37322]%N ++ runes_of_ascii "
-    packet
-    zchar { // " ++ [27880; 37322]%N ++ runes_of_ascii "
-uint16 falsey ,  match string_ as BodyLength {
-[
-    4294967296 , 42 ,255 , ""1""
-, """ ++ [28040; 24687]%N ++ runes_of_ascii """ ,""packet"" ,""`tick`"" ]
-: Logon ,
-7 : packetx , } , @leftPad  (
-) @calculatedFrom(
-    /// triple
-    ""\n"" )
-    @leftPad  () match T as
-packetx {""1"" :options1, } //
-,uint8 MetaDataX@lengthOf(	roots  ), @tag( 0123456789 //	t
-) body// packet A { u8 x, }
-@calculatedFrom( ""packet"" // @lengthOf(
-)
+Eval vm_compute in ("<<<M754>>>" ++ check (runes_of_ascii "MetaData _x { char[ 4294967296	]
+// 50% %s
 // c
-// trailing space 
-`{ , }` ,@lengthOf(	roots )
-zchar[ 0123456789 ]
-repeatCount
-    , repeat int32 matchKey `a\` , @lengthOf(
-    options1 )u8 pack , @rightPad( ' ' ) float32 f32a
-    , @rightPad (
-    /// triple
-    '\x00' )
-    @rightPad(	) @calculatedFrom(// trailing space 
-""CRC32"" )repeat
-pack { // @lengthOf(
-zchar[00 ] falsey ``
-    , match calculatedFrom	as // c
-leftPad { 65535 // trailing space 
-: // packet A { u8 x, }
-Z9_
-    , 007//x
-:
-charz,} , repeat zchar[7] Pad ,} , }
+uint8x	,} packet
+    falsey { uint8
+    // a // b
+    trueish
+`` ,float64
+    packetx `100% of %d` , stringy A
+`u8 x,` // `tick` ""quote"" 'q'
+,
+// a // b
+// c
+@lengthOf(
+    charz
+)
+match u8x as u8x { [""\" ++ [233]%N ++ runes_of_ascii """,
+""" ++ [28040; 24687]%N ++ runes_of_ascii """ , 3 ,""a\""b"" ,// a // b
+42 , ""// no comment"" ,
 //x
-")).
-Eval vm_compute in ("<<<M1962>>>" ++ check (runes_of_ascii "// @lengthOf(
-root packet leftPad {
-    match Logon as msg_type {
-        ""it's"" : int,
-        """ ++ [128512]%N ++ runes_of_ascii """ : charz,
-        ""a\\"" : options1,
-    },
-    @rightPad(' ')
-    asx `doc`,
-    @leftPad('0')
-    uint32 charz,
-    @tag(255)
-    zchar[10] Pad ``,
-    string asx `it's`,
-}
-
-packet Pad {
-    @lengthOf(lengthOf)
-    @lengthOf(crc)
-    u8x `a\`,
-    float64 f32a @calculatedFrom(""a\""b"") `it's`,
-    @lengthOf(options1)
-    @tag(42)
-    @calculatedFrom(""1"")
-    zchar[7] repeatCount `say ""hi""`,
-    @calculatedFrom(""// no comment"")
+/// triple
+""abc""
+    ,""\n"" ] : As 3:
+    body , 65535 : body // " ++ [128512]%N ++ runes_of_ascii " emoji
+,
+[  255 ,	""a	b""
+] : Packet 1
+:len, }
+    , @lengthOf(// `tick` ""quote"" 'q'
+float
+) match trueish
+    as
+    u128 {	1	: float , [
+""{,}""] :u128, 00
+:len , ""a\""b"" :metadata }, repeat
+float asx
+, i8 a1@calculatedFrom( ""a\\"" )
+, leftPad
+@calculatedFrom( """ ++ [128512]%N ++ runes_of_ascii """ ) `doc`
+, uint16 trueish
+    `crlf
+line` ,// packet A { u8 x, }
+@lengthOf( trueish
+) zchar[ 3 ]Foo@lengthOf( Z9_) `crlf
+line` , }
+packet	pack// c
+{  int len `100% of %d` ,// c
+@lengthOf( chars )char[
+0123456789 ] zchar
+`" ++ [233]%N ++ runes_of_ascii "`
+, @tag(
+7 )
+zchar[
+10
+] a1 `say ""hi""`, float64 leftPad , @calculatedFrom( """ ++ [128512]%N ++ runes_of_ascii """ ) Packet@calculatedFrom("""" )
+,u {string BodyLength
+, zchar[42
+    ] // `tick` ""quote"" 'q'
+metadata // a // b
+, } ,repeat Packet {
+zchar[
+4294967296
+]repeatCount `u8 x,` ,
+    charz // " ++ [27880; 37322]%N ++ runes_of_ascii "
+{
+    Packet ,
+//	t
+// c
+} , zchar[	007 ] // @lengthOf(
+asx
+// `tick` ""quote"" 'q'
+// " ++ [27880; 37322]%N ++ runes_of_ascii "
+, // a // b
+} , @tag( 1
+) //	t
+@leftPad
+( '\x00' ) //
+match uint8x as f32a { ""\" ++ [233]%N ++ runes_of_ascii """ : matchKey, } ,
+char[]
     //x
-    zchar[3] i8i8 @calculatedFrom(""// no comment"") `" ++ [233]%N ++ runes_of_ascii "`,
-    @tag(65535)
-    match o as float {
-        [10] : len,
-    },
-    @tag(3)
-    match repeatCount as Pad {
-        [
-            ""// no comment"", 42, ""\n"", 007, 3,
-            ""// no comment""
-        ] : calculatedFrom,
-    },
-    u8x {
-        repeat string x `it's`,
-        x @calculatedFrom(""" ++ [128512]%N ++ runes_of_ascii """),
-        falsey {
-            match f32a as u128 {
-                [
-                    ""it's"", 0123456789, 0, """ ++ [233]%N ++ runes_of_ascii "t" ++ [233]%N ++ runes_of_ascii """, 42,
-                    65535, 1, 255
-                ] : uint8x,
-                0 : asx,
-            },
-            repeat packetx u `{ , }`,
-            string Foo,
-            x @calculatedFrom(""a	b""),
-        },
-        o pack,
-    },// a // b
+    As,
+f32a @lengthOf(
+    repeatCount )// " ++ [27880; 37322]%N ++ runes_of_ascii "
+,}/// triple
+root
+packet
+T
+    {
+    @lengthOf(repeatCount ) repeat matchKey`{ , }`, zchar[10 ] tag //	t
+,char[ 0] As @calculatedFrom(
+    ""packet"" ), @calculatedFrom( ""\" ++ [233]%N ++ runes_of_ascii """ )@lengthOf(
+int)
+    // c
+    repeat
+trueish T, float32 o `say ""hi""`
+    ,
+@leftPad	( ) @tag( 255 ) i16 Packet	@lengthOf(metadata )  ,	repeat	char[ 255
+]	msg_type `// not a comment`
+    ,
+    @tag(	42 )char[]  u8x  @lengthOf( calculatedFrom ) , @tag( // trailing space 
+255) char[ 007 ] calculatedFrom
+@calculatedFrom( ""x y"" ),
+    //	t
+    @calculatedFrom(""" ++ [128512]%N ++ runes_of_ascii """	) @lengthOf(
+    packetx )
+@calculatedFrom(""{,}"" )
+    match _x as//
+o{ [ """ ++ [128512]%N ++ runes_of_ascii """, ""\" ++ [233]%N ++ runes_of_ascii """ , 65535,
+    65535 , ""`tick`""
+, ""// no comment"", 1 , 0123456789
+] :stringy , [1	,
+""x y""] : Logon , [ 0123456789,// packet A { u8 x, }
+1 , ""CRC32"" , 007
+    // a // b
+    ]: pack [ 255,// `tick` ""quote"" 'q'
+""it's"" , """ ++ [28040; 24687]%N ++ runes_of_ascii """,
+// packet A { u8 x, }
+// packet A { u8 x, }
+""`tick`""
+,
+""// no comment"" , ""// no comment"", 0123456789
+    ,
+    /// triple
+    42]
+:packetx, } , } root packet BodyLength {
+    x_y_z,
+} // @lengthOf(")).
+Eval vm_compute in ("<<<M3967>>>" ++ check (runes_of_ascii "
+root
+
+    packet Pad
+
+{	@lengthOf( Logon  ) 
+zchar[
+    3 ]As // a // b
+	@calculatedFrom(""x y""
+
+    )
+,
+@leftPad
+	( ' '
+
+    ) matchKey `" ++ [28040; 24687; 31867; 22411]%N ++ runes_of_ascii "` ,	@tag(
+    3 )
+    BodyLength
+{
+	match
+
+zchar
+
+    as
+int 
+{
+""a	b"" :
+    int
+	} // @lengthOf(
+
+	,
+
+    }  // a // b
+	,
+    @tag(
+
+7
+    ) match	x 
+as A
+
+{
+    10// " ++ [27880; 37322]%N ++ runes_of_ascii "
+:  metadata	,}
+
+,zchar[ 3  ]
+
+    chars 
+,
+
+len body // " ++ [128512]%N ++ runes_of_ascii " emoji
+  	,
+	match Z9_	as
+
+    chars
+{  ""a	b""  :	chars
+
+    ,
+},
+@lengthOf( rootA 
+)	//
+A	,
+    string tag
+	, u32	a1`" ++ [28040; 24687; 31867; 22411]%N ++ runes_of_ascii "`
+
+,	} MetaData
+	string_
+{
+	char[]
+_x, }packet x	{
+    @lengthOf( As// 50% %s
+
+)  @lengthOf( 	 //
+    asx
+	)  repeat  uint32
+	int  ,
+
+    @leftPad (	' '  ) repeat char[
+
+3
+    ]  o `two words` , repeat
+
+a1
+{
+repeat
+	f32a
+	{
+calculatedFrom 
+crc	,
+
+    x  Pad,
+repeat  u16
+	leftPad  // 50% %s
+,repeat
+f32a
+
+calculatedFrom
+    ,// `tick` ""quote"" 'q'
+  }
+
+,  i16 repeatCount
+	,
+    asx `a\` ,	}
+
+, a1
+
+    {
+Z9_  x
+    ,
+
+charz  @lengthOf( As
+) `doc`  ,  Packet u ,
+	repeat	char[
+007
+    ] Header
+
+    ,
+	}
+	, calculatedFrom 	 //	t
+  lengthOf  `" ++ [28040; 24687; 31867; 22411]%N ++ runes_of_ascii "`,
+crc `a\`
+, 
+repeat
+char[]falsey
+
+    , @tag(42
+)string matchKey
+,
+	zchar	, @tag(0
+
+// trailing space 
+/// triple
+  ) zchar[	007
+
+    ] // packet A { u8 x, }
+
+	u128
+    `two words`
+,}	MetaData
+f32a	{ }
+
+    packet  calculatedFrom
+	{@leftPad
+(
+'0'
+)
+
+@rightPad  (  ' ' )
+	metadata	Foo , @tag( 1
+)
+	int64 Pad
+
+    `line1
+line2`	,tag @lengthOf( 
+Header  ) 
+,
+string
+	u128	,  @calculatedFrom(
+
+    ""x y""
+	)@lengthOf(
+i64_
+
+)
+
+tag	/// triple
+  { o
+
+    ,
+
+Packet@calculatedFrom(
+	""`tick`""
+    )	,
+    }
+,// @lengthOf(
+    	i32 leftPad@lengthOf( 
+u  // " ++ [27880; 37322]%N ++ runes_of_ascii "
+  )
+
+    , i16 
+Logon,
+@calculatedFrom(	""it's""
+    )
+uint16 
+BodyLength
+
+@calculatedFrom( // packet A { u8 x, }
+		""" ++ [233]%N ++ runes_of_ascii "t" ++ [233]%N ++ runes_of_ascii """	)
+	// trailing space 
+,	zchar[
+10 ]
+    x
+
+    @calculatedFrom(  """" 
+    // " ++ [27880; 37322]%N ++ runes_of_ascii "
+	// 50% %s
+), }
+")).
+Eval vm_compute in ("<<<M3911>>>" ++ check (runes_of_ascii "options {
+    Pad = '0'
+    o = true;// c
+    x = false
 }
 
-packet i64_ {
-    repeat char[3] a1,
+root packet trueish {
+    @tag(4294967296)
+    repeat u32 metadata,
+    @calculatedFrom(""CRC32"")
+    @rightPad()
+    @lengthOf(x_y_z)
+    falsey {
+        i8 i8i8 `it's`,
+        Header {
+            // trailing space 
+            repeat calculatedFrom {
+                calculatedFrom `{ , }`,
+            },
+        },
+        repeat Pad,
+    },
+    x_y_z u8x `// not a comment`,
+    lengthOf tag,// `tick` ""quote"" 'q'
+    repeat zchar[7] options1,
+    f32 _x `// not a comment`,
+    match calculatedFrom as o {
+        [0, 0] : uint8x,
+        [""`tick`""] : options1,
+        [
+            7, 255, """ ++ [233]%N ++ runes_of_ascii "t" ++ [233]%N ++ runes_of_ascii """, """", ""\n"",
+            65535
+        ] : options1,
+        ""// no comment"" : pack,
+        [007, ""packet"", 3, 0123456789] : MetaDataX,
+    },
+    match string_ as roots {
+        [0] : crc,
+    },
+    @lengthOf(asx)
+    roots,
+    @lengthOf(i8i8)
+    u,
+}
+
+packet Logon {
+    @calculatedFrom(""a\\"")
+    @tag(1)
+    @leftPad('\x00')
+    roots @lengthOf(metadata),
+    zchar[4294967296] roots `say ""hi""`,
+    match u as chars {
+        10 : roots,
+        ""`tick`"" : o,
+        255 : int,
+        [1, 10, """ ++ [128512]%N ++ runes_of_ascii """] : Packet,
+        // trailing space 
+        255 : Header,
+        [
+            ""a\\"", 0123456789, 65535, ""\" ++ [233]%N ++ runes_of_ascii """, 65535,
+            1, ""\n""
+        ] : u,
+    },
+    _x @calculatedFrom(""" ++ [128512]%N ++ runes_of_ascii """) `100% of %d`,
+    uint8 As @lengthOf(BodyLength),
 }
 
 options {
-}")).
-Eval vm_compute in ("<<<M273>>>" ++ check (runes_of_ascii "root packet T // trailing space 
-{
-//	t
-//
-@rightPad( // " ++ [27880; 37322]%N ++ runes_of_ascii "
-'\x00'
-    ) repeat metadata {repeat
-    i64 Z9_ , }
-    , } options {_x = char[] ; tag
-    =
-    // packet A { u8 x, }
-    uint32 calculatedFrom	=u16;  } packet // c
-packetx { @leftPad /// triple
-(' '	) int trueish , packetx
-{
-    leftPad	@lengthOf( //	t
-string_ )
-    , // `tick` ""quote"" 'q'
-repeat o	string_	,  match // " ++ [27880; 37322]%N ++ runes_of_ascii "
-stringy as packetx{ 0 :// `tick` ""quote"" 'q'
-pack,
-    // @lengthOf(
-    ""CRC32""	:tag ,
-    // trailing space 
-    """ ++ [128512]%N ++ runes_of_ascii """:
-    Z9_	4294967296 :  chars//x
-,007 : calculatedFrom ,10
-    : u8x , }
-    , } // " ++ [27880; 37322]%N ++ runes_of_ascii "
-, repeat BodyLength{ //	t
-repeat char[ 3 ]	metadata `a\` ,  repeat char
-pack`a\` , char
-Header
-    //	t
-    @calculatedFrom(
-""// no comment"")
-    ,
-    uint32 roots
-    @lengthOf( i64_ ) ,
-    }
-    ,
-// a // b
-// trailing space 
-pack , repeat len Header `
-` ,	f64	f32a, char[] x,
-    Header @lengthOf(a1	) , asx
-@lengthOf( calculatedFrom	) ,  } MetaData roots {
-options1 As// a // b
-, string_
-// `tick` ""quote"" 'q'
-// c
-float
-`{ , }`
-/// triple
-// packet A { u8 x, }
-, // trailing space 
-} 	 ")).
-Eval vm_compute in ("<<<M357>>>" ++ check (runes_of_ascii "MetaData msg_type{ string
-charz , crc u8x  ,
-    u16 x_y_z
-    `u8 x,`
-, i64	zchar
-,
-    }
-    // @lengthOf(
-    packet T
-{
-@calculatedFrom( ""a\\"" ) uint16 chars @calculatedFrom(
-    ""x y"") `
-` , } packet pack // a // b
-{}
-    options { }	packet trueish
-{
-    // trailing space 
-    @calculatedFrom(//x
-""abc""	) match chars as lengthOf  {  [ 4294967296
-]
-: a1[""CRC32"" ,/// triple
-7	, ""1""
-, 4294967296// c
-,  ""a\\"" ,
-    0, 65535 , ""{,}""
-] :  a1 , }
-// packet A { u8 x, }
-// trailing space 
-, string	lengthOf  `" ++ [28040; 24687; 31867; 22411]%N ++ runes_of_ascii "` ,
-@lengthOf( // trailing space 
-x ) match
-charz as a1 { 255:// trailing space 
-Logon,
-    }, @calculatedFrom(
-""a	b""// a // b
-)  @tag(00
-// " ++ [27880; 37322]%N ++ runes_of_ascii "
-// `tick` ""quote"" 'q'
-)	@lengthOf( zchar ) body @lengthOf(
-    /// triple
-    msg_type)
-    , MetaDataX	@lengthOf( len ) /// triple
-`a\`/// triple
-, @rightPad
-( '\x00' ) @lengthOf(
-Packet
-    ) string u128// `tick` ""quote"" 'q'
-`u8 x,` // c
-,
-packetx @lengthOf(	o )
-, }
-// @lengthOf(
-")).
-Eval vm_compute in ("<<<M2011>>>" ++ check (runes_of_ascii "
-
-  // top
-    	packet // c0
-P1  { 
-
-// c2
-u8  // c3
-  a // c4
-		, // c5
-
-  }
-// c6
-    packet
-
-P2 	 // c8
-	{ // c9
-  P1 
-	    // c10
-,// c11
-  } packet	// c13
-P3 
-
-    // c14
-  {  P2// c16a
-
-	// c16b
-,
-P1 
-    // c18
-		,
-
-    } 
-    // c20
-  packet // c21a
-// c21b
-P4 
-// c22
-{
-
-    repeat
-
-    P3
-// c25
-	, 
-
-    // c26
-P2 // c27
-  ,	// c28
-
-} 
-        // c29
-root packet
-	P5 
-
-// c32
-
-	{ 	 // c33
-    P4// c34a
-  // c34b
-  	,// c35a
-  	// c35b
-P3// c36
-	, 	 // c37
-  P1  // c38
-	,
-	u8 
-// c40
-K
-
-, 	 // c42
-		match
-K // c44
-as 
-
-    // c45
-  Body  // c46a
-	  // c46b
-  {  // c47
-
-  4
-	:	// c49
-  P4 	 // c50
-  ,3
-	    // c52
-  :
-// c53
-  	P3
-    ,
-
-2
-
-// c56
-:// c57a
-
-  // c57b
-	P2
-        // c58
-  	, // c59
-    	1
-    // c60
-  :  // c61
-    P1 
-,
-	}// c64
-    , 	 // c65
-  }  
-  // c66")).
-Eval vm_compute in ("<<<M171>>>" ++ check (runes_of_ascii "root  packet body { /// triple
-crc
-x_y_z `say ""hi""` , float// `tick` ""quote"" 'q'
-_x , T// " ++ [128512]%N ++ runes_of_ascii " emoji
-`a\`
-    // " ++ [27880; 37322]%N ++ runes_of_ascii "
-    , uint64 MetaDataX , repeat zchar[ 7 ]
-    calculatedFrom `` , uint32 len
-// c
-// @lengthOf(
-`a\` , } /// triple
-options{
-} packet	a1{ @tag( 1 )Logon @lengthOf(	options1) `{ , }` , @calculatedFrom( ""abc"")
-    /// triple
-    f32a // " ++ [27880; 37322]%N ++ runes_of_ascii "
-{leftPad { // trailing space 
-o matchKey
-``  , }
-, int32 int
-// c
-// @lengthOf(
-``
-, char[ 007 ]
-    zchar
-@lengthOf( Z9_ ) `tab	here`
-    , char[ 1 ] falsey ,  } ,
-    repeat int16 Z9_ , match	zchar as zchar{ ""packet"" :	x_y_z	,
-[3
-    // " ++ [128512]%N ++ runes_of_ascii " emoji
-    , ""CRC32"", 0,""CRC32""//
-, 0123456789 ]
-: len
-, [0 ,	4294967296
-] :
-Packet
-, [65535
-] : options1 [ 10]//	t
-: u128 , } , // packet A { u8 x, }
+    u = ""a	b"";
+    float = zchar[1];
 }
-")).
-Eval vm_compute in ("<<<M1876>>>" ++ check (runes_of_ascii "  packet
-Logon// c1
-    { // c2
 
-  string  // c3a
-	// c3b
-user // c4
-,	// c5a
-// c5b
-    	} 
-	    // c6
-  	root packet	Frame// c9a
-  // c9b
-  { 
-    // c10
-u8 
-    // c11
-	K
+options {
+    //x
+    //
+    metadata = ""it's"";
+    rootA = '0'
+    /// triple
+    // packet A { u8 x, }
+    A = true;
+}")).
+Eval vm_compute in ("<<<M4011>>>" ++ check (runes_of_ascii "
+options {  StringPrefixLenType=	u16; ArrayPrefixLenType
 
-,	// c13
-	match
+    =u16
 
-    // c14
-      K 
+;
+    }packet SampleBinary
+{  uint16	MsgType
+    `" ++ [28040; 24687; 31867; 22411]%N ++ runes_of_ascii "`	, u16 
+BodyLenght
 
-// c15
-	as 
-      // c16
-Body // c17a
-// c17b
+    @lengthOf(	Body) `" ++ [28040; 24687; 20307; 38271; 24230]%N ++ runes_of_ascii "`
+,
+match
 
-	{	1 // c19a
-    // c19b
+MsgType
+as
+
+    Body {
+
+1
+
+    :  Logon
+,  2 
 :
-	Logon// c21
-,  // c22a
-    	// c22b
-  2
-: 
-    // c24
-    Logout
-    // c25
-    	,
-    }	,
-        // c28
-    	Tail,
-    }
+    Logout	,
+    3 :Heartbeat
+    ,
+4  :RiskControlRequest	,
 
-    packet	// c32
-Logout
-// c33
-  {	// c34
-		u16 	 // c35a
-    	// c35b
+5:RiskControlResponse
 
-reason 	 // c36a
+, }
 
-	// c36b
-	, // c37
-    } // c38a
-		// c38b
-  packet// c39a
-    // c39b
-	Tail	// c40
-{
+    ,	@calculatedFrom(  ""CRC32"" 
+)u32 
+Ckecksum
 
-    u32 
-// c42
-      crc  , // c44a
-// c44b
-    } // c45a
+    `" ++ [26657; 39564; 21644]%N ++ runes_of_ascii "`
+,} 
+packet
+    Logon
+	{
+@leftPad
+    (	'0' )char[
 
-  // c45b
-")).
-Eval vm_compute in ("<<<M296>>>" ++ check (runes_of_ascii "root
-packet i64_ // " ++ [27880; 37322]%N ++ runes_of_ascii "
-{match // " ++ [128512]%N ++ runes_of_ascii " emoji
-rootA as stringy {
-    10 : int , 7 : chars
-, 7: int 4294967296: // @lengthOf(
-Foo , [// trailing space 
-7 , """ ++ [28040; 24687]%N ++ runes_of_ascii """  ]  :// c
-BodyLength [ 0 ,""1""
-    , 00 , 7
-    ,""it's"" ] :
-As ,
-    } ,
-repeat char[] a1`u8 x,`, @leftPad
-// packet A { u8 x, }
-// " ++ [27880; 37322]%N ++ runes_of_ascii "
-(
-    // trailing space 
-    ' '	) packetx , @calculatedFrom(  ""\n"")  repeat matchKey
-    { char[7
-    // `tick` ""quote"" 'q'
-    ] falsey
-    `crlf
-line` , } ,
-// c
-/// triple
-@lengthOf( f32a ) uint8
-Z9_
+    10 ]
+    UserName
+    `" ++ [29992; 25143; 21517]%N ++ runes_of_ascii "` , string
+Password `" ++ [23494; 30721]%N ++ runes_of_ascii "` ,uint64
+	ClientId
+
+    `" ++ [23458; 25143; 31471]%N ++ runes_of_ascii "ID`
+
+    ,
+u16
+
+HeartbeatInterval `" ++ [24515; 36339; 38388; 38548]%N ++ runes_of_ascii "`
+	, }packet Logout 
+{ @rightPad
+('0')  char[
+
+10
+] UserName 
+`" ++ [29992; 25143; 21517]%N ++ runes_of_ascii "`  ,
+	uint64
+
+ClientId`" ++ [23458; 25143; 31471]%N ++ runes_of_ascii "ID`	,	} packet Heartbeat
+
+    {
+}
+	packet RiskControlRequest	{
+
+    string
+	UniqueOrderId `" ++ [21807; 19968; 35746; 21333; 21495]%N ++ runes_of_ascii "`,char[16 ]
+
+    ClOrdID
+`" ++ [23458; 25143; 35746; 21333; 21495]%N ++ runes_of_ascii "`,
+char[ 3 
+]
+MarketID
+`" ++ [24066; 22330]%N ++ runes_of_ascii "id`
+
+    , char[  12
+
+    ] 
+SecurityID	`" ++ [35777; 21048; 20195; 30721]%N ++ runes_of_ascii "`
+	,
+char
+Side`" ++ [20080; 21334; 26041; 21521]%N ++ runes_of_ascii "` ,
+	char
+    OrderType  `" ++ [35746; 21333; 31867; 22411]%N ++ runes_of_ascii "`	,
+
+u64
+
+Price`" ++ [20215; 26684]%N ++ runes_of_ascii "` 
 ,
-// a // b
-//	t
-falsey ,	repeat leftPad ,  @tag(1 ) u8x@lengthOf(  i64_
-) , }
-")).
-Eval vm_compute in ("<<<M1787>>>" ++ check (runes_of_ascii "// top
-root packet msg_type {
-    // c3
-    i64 options1,// c6
-    @lengthOf(f32a)
-    // c9
-    repeat uint16 Foo,// c13
-    @calculatedFrom(""x y"")
-    // c16
-    repeat int64 pack,// c20
-    @leftPad(' ')
-    // c24
-    uint8 Foo,// c27
-}// c28
+    u32
 
-packet rootA {
-    // c31
-    f32a x `two words`,// c35
-    char asx @lengthOf(falsey) `u8 x,`,// c42
-    @lengthOf(i64_)
-    // c45
-    uint16 chars,// c48
-    @tag(0)
-    // c51
-    string _x @calculatedFrom(""abc"") `// not a comment`,// c58
-}// c59")).
-Eval vm_compute in ("<<<M1676>>>" ++ check (runes_of_ascii "  options
+    Qty `" ++ [25968; 37327]%N ++ runes_of_ascii "`
+, 
+repeat
+    string
+	ExtraInfo 
+`" ++ [38468; 21152; 20449; 24687]%N ++ runes_of_ascii "`
 
-{LittleEndian
+    ,
+	repeat	SubOrder  {
+char[
+16]
 
-=false ;StringPrefixLenType=	u8	; ArrayPrefixLenType
-= u16
-    ; FixedStringPadFromLeft  =
-false ;  }  packet
-Heartbeat {  u8
-seqNo
+    ClOrdID  `" ++ [23376; 35746; 21333; 21495]%N ++ runes_of_ascii "` 
 ,
-    @rightPad('\x00'
-)	char[8  ] x
+
+u64
+
+    Price`" ++ [23376; 35746; 21333; 20215; 26684]%N ++ runes_of_ascii "`
+
+    ,u32
+
+Qty
+    `" ++ [23376; 35746; 21333; 25968; 37327]%N ++ runes_of_ascii "` 
+,  }
 
     , }
-	root
-    packet Trade  {  repeat 
-Heartbeat , 
-float32 OrderId
+    packet
+RiskControlResponse{
 
+string
+    UniqueOrderId `" ++ [21807; 19968; 35746; 21333; 21495]%N ++ runes_of_ascii "`
+    ,
+
+i32
+Status
+	`" ++ [29366; 24577]%N ++ runes_of_ascii "` ,
+
+string 
+Msg
+
+    `" ++ [32467; 26524; 20449; 24687]%N ++ runes_of_ascii "`
+,repeat Detail ,	}
+packet
+Detail{ string	RuleName
+`" ++ [35268; 21017; 21517; 31216]%N ++ runes_of_ascii "`
+    ,
+
+u16 
+Code
+
+    `" ++ [21407; 22240; 20195; 30721]%N ++ runes_of_ascii "`
+
+,}
+")).
+Eval vm_compute in ("<<<M159>>>" ++ check (runes_of_ascii "
+options { } packet
+x { }
+root packet stringy { len // @lengthOf(
+{// a // b
+Header chars`{ , }` ,match rootA
+as string_ { ""a\\"" :
+a1 ,// " ++ [128512]%N ++ runes_of_ascii " emoji
+}
 ,
-i64
-    Acct	, u16  Qty
-,  u16
-	clOrdID ,
-
-    match
-    clOrdID
-as  Body
-	{
-    131  : Heartbeat
-
-, 
-}
-	,
-
-    u16	sym 
-@calculatedFrom( ""CRC32"" )
-,}
-")).
-Eval vm_compute in ("<<<M117>>>" ++ check (runes_of_ascii "
-packet x { @leftPad ( )	i32 float
-,}
-    options{  chars =
-'0'
-    ;Header // c
-=
-""`tick`""  x =
-// `tick` ""quote"" 'q'
-//
-'\x00' ; rootA = char[	65535  ] ;
-}options	{
-x =
-""it's"" asx
-    // " ++ [27880; 37322]%N ++ runes_of_ascii "
-    = char[ 007] ;  zchar= int8 ;
-//	t
+packetx pack
 // a // b
-zchar =true ; chars= char[]
-/// triple
-// `tick` ""quote"" 'q'
-}
-    options {  o  = 7 Logon
-=	10 /// triple
-body =
-    false a1 // c
-= ""x y"" }
-")).
-Eval vm_compute in ("<<<M9>>>" ++ check (runes_of_ascii "options { i64_ =// a // b
-""it's"" ;
-Foo =  ""\n""	; x_y_z = '\x00';
-len= '0'
-}	root packet Packet
-{ @tag(  0)  match	crc
-as A// " ++ [27880; 37322]%N ++ runes_of_ascii "
-{[ ""`tick`"",
-    ""`tick`""
 // @lengthOf(
+, /// triple
+f64
 // a // b
-, ""packet""
+// packet A { u8 x, }
+float
+`" ++ [28040; 24687; 31867; 22411]%N ++ runes_of_ascii "`,
+} , @calculatedFrom(  """ ++ [233]%N ++ runes_of_ascii "t" ++ [233]%N ++ runes_of_ascii """)zchar[
+    7]
+    // packet A { u8 x, }
+    i64_ @lengthOf( T)
+// @lengthOf(
+// " ++ [27880; 37322]%N ++ runes_of_ascii "
+`crlf
+line` , // packet A { u8 x, }
+int int
+    // " ++ [27880; 37322]%N ++ runes_of_ascii "
+    , zchar[ 007
+    // a // b
+    ]
+i8i8 `
+`
+    ,
+    @rightPad// c
+()repeat char[] f32a`it's`	,
+@rightPad( ' ' )
+Pad @calculatedFrom( ""// no comment"" ) `a\` , u{
+zchar[
+007
+    ] roots,
+} ,char[ 4294967296]i8i8
+    @calculatedFrom( ""{,}"" ) , }
+    //
+    MetaData
+    int { string packetx `// not a comment`,
+    }
+    root packet
+    len { uint8 lengthOf `line1
+line2` , @calculatedFrom( ""a	b"") @lengthOf(
+    // a // b
+    chars )@rightPad
+    ( '0'
+    ) int64 u8x `{ , }` ,
+@calculatedFrom(
+    // c
+    """ ++ [128512]%N ++ runes_of_ascii """
+) match u8x as
+    A{ [ """" // packet A { u8 x, }
+, 10 , 4294967296 , """ ++ [233]%N ++ runes_of_ascii "t" ++ [233]%N ++ runes_of_ascii """] : Pad ,// a // b
+""it's"" : packetx 255 : repeatCount [
+""" ++ [233]%N ++ runes_of_ascii "t" ++ [233]%N ++ runes_of_ascii """ , ""1"" ]
+:Pad
+    , }, @tag(	10 )
+Header u
+    ,uint8 trueish `` ,
+    @rightPad (' ' ) falsey ,@tag(
+0 )@calculatedFrom( ""1""
+) @leftPad
+    ( '\x00' ) o ,}
+// trailing space 
+")).
+Eval vm_compute in ("<<<M1007>>>" ++ check (runes_of_ascii "packet
+    x
+    //x
+    { } MetaData msg_type
+{_x
+    len // trailing space 
+`it's`, char[] Pad `line1
+line2`, As asx
+, A
+// `tick` ""quote"" 'q'
+// 50% %s
+options1 `
+` , char[ 1 ]
+    int
+// a // b
+// c
+`say ""hi""` ,  stringy
+    uint8x, } options {
+u128 =
+    zchar[	255] ; crc = '\x00' ;
+    A = char[ 42] ;
+} packet Z9_	{
+    //	t
+    @lengthOf(
+    lengthOf
+)float64 Packet @calculatedFrom( ""a\""b"" ),
+    chars
+    {
+len	{ Logon len
+, string string_,
+u8x @calculatedFrom( ""a\\""  ) , repeat float { body int	`two words` , } , //	t
+} , char[] f32a  ,i32 crc
+, A	@calculatedFrom(
+    ""\" ++ [233]%N ++ runes_of_ascii """),  } , zchar[
+42 ]// trailing space 
+x  ,@rightPad ( ' ' )
+// " ++ [128512]%N ++ runes_of_ascii " emoji
+// trailing space 
+repeat // 50% %s
+x_y_z len `// not a comment` , x  {
+match // a // b
+x_y_z as tag { 4294967296	: asx}
+, } , char[] trueish @calculatedFrom(
+    ""abc"")  ,
+}
+/// triple
+// trailing space 
+packet u { @calculatedFrom( """ ++ [233]%N ++ runes_of_ascii "t" ++ [233]%N ++ runes_of_ascii """
+    )
+@calculatedFrom(""it's"" )
+match crc as  u128//	t
+{ 3 :falsey 7: o	, 0 :
+// 50% %s
+// " ++ [128512]%N ++ runes_of_ascii " emoji
+T , 65535 //
+:Logon
+, [ 0 ] :leftPad
+    // trailing space 
+    , [ """ ++ [233]%N ++ runes_of_ascii "t" ++ [233]%N ++ runes_of_ascii """ ,
+// @lengthOf(
+// @lengthOf(
+00  ]  : Packet
+    ,
+    }
+,} // packet A { u8 x, }")).
+Eval vm_compute in ("<<<M3524>>>" ++ check (runes_of_ascii "packet Frame {
+    // c2
+u8 HK
+    // c4
+, // c5
+u8
+    // c6
+BK , // c8a
+  // c8b
+u8 // c9
+TK // c10
+, // c11a
+  // c11b
+match HK // c13
+as // c14a
+  // c14b
+Hdr { 1
+    // c17
+: HdrA // c19a
+  // c19b
+, 2
+    // c21
+: // c22
+HdrB
+    // c23
+, // c24a
+  // c24b
+} // c25
+, // c26a
+  // c26b
+match // c27a
+  // c27b
+BK
+    // c28
+as Body // c30
+{ 1 : // c33
+BodyA
+    // c34
+, 2
+    // c36
+: // c37a
+  // c37b
+BodyB // c38
+, }
+    // c40
 ,
-    ""CRC32""
+    // c41
+match TK // c43
+as
+    // c44
+Trl {
+    // c46
+1 // c47
+: // c48a
+  // c48b
+TrlA , } // c51a
+  // c51b
+, // c52
+} packet HdrA { u8 a // c58
+, } // c60
+packet
+    // c61
+HdrB
+    // c62
+{ // c63
+u16 // c64a
+  // c64b
+b ,
+    // c66
+}
+    // c67
+packet
+    // c68
+BodyA // c69
+{
+    // c70
+u32
+    // c71
+c
+    // c72
+, // c73
+} // c74a
+  // c74b
+packet // c75
+BodyB // c76
+{ // c77
+u64 d // c79a
+  // c79b
+,
+    // c80
+}
+    // c81
+packet TrlA // c83a
+  // c83b
+{ // c84
+u8
+    // c85
+e
+    // c86
+, // c87a
+  // c87b
+} // c88
+root packet Msg // c91a
+  // c91b
+{ // c92a
+  // c92b
+Frame // c93a
+  // c93b
+,
+    // c94
+u8 // c95
+x , } // c98
+")).
+Eval vm_compute in ("<<<M803>>>" ++ check (runes_of_ascii "options
+    // 50% %s
+    {
+T	=
+    3 lengthOf  = true
+; msg_type = float64
+    ;
+    Foo= zchar[  4294967296 ] ;	zchar =  ""abc""
+    ;}
+// " ++ [128512]%N ++ runes_of_ascii " emoji
+// " ++ [27880; 37322]%N ++ runes_of_ascii "
+packet x{ @lengthOf(// packet A { u8 x, }
+matchKey )@calculatedFrom(""a\\"")
+repeat string u128
+    , @calculatedFrom(""a\""b"" )i32 x @calculatedFrom( ""x y"" ) , char[] Foo ,@calculatedFrom( ""// no comment""	) @lengthOf(
+string_ )@tag(  0123456789 )	repeat zchar[ 7
+] tag
+`100% of %d` , @lengthOf( msg_type  )
+match msg_type as
+    MetaDataX {
+[ """ ++ [28040; 24687]%N ++ runes_of_ascii """
+// " ++ [27880; 37322]%N ++ runes_of_ascii "
+// 50% %s
+, 00, ""packet"" ,  7
+, 7 ,
+    7 , 1 , ""a	b"" //
+]
+    : u8x 0123456789 : // @lengthOf(
+Header,
+0123456789 :
+    falsey ,// 50% %s
+65535 :
+    //
+    u8x  , } ,@tag(	007 ) char[] len // packet A { u8 x, }
+,
+    } options { Pad =
+    ""// no comment""
+;
+i8i8
+    // trailing space 
+    = zchar[
+// 50% %s
+// 50% %s
+42
+    ];	leftPad	=10  } options { i8i8=
+true f32a =
+255  ; Pad= '\x00' ;// @lengthOf(
+}
+    /// triple
+    packet
+repeatCount {// trailing space 
+@leftPad (  '\x00' )
+msg_type Logon , }
+")).
+Eval vm_compute in ("<<<M4414>>>" ++ check (runes_of_ascii "
+//x
+	packet
+
+// c
+      roots{
+} options 
+  // " ++ [128512]%N ++ runes_of_ascii " emoji
+
+// @lengthOf(
+    { Header
+
+=
+zchar[ 
+4294967296
+
+] ;
+	crc 
+=""a\\"" 
+
+    //x
+// packet A { u8 x, }
+	; o 
+=
+
+    // " ++ [128512]%N ++ runes_of_ascii " emoji
+
+	""a	b""
+    }
+root 	 // @lengthOf(
+	packet 
+Header// `tick` ""quote"" 'q'
+  { charz 
+, repeat
+Logon
+	{ repeat
+
+    o
+`doc`
+	,
+	repeatCount
+{
+    matchKey
+{	match  Pad
+
+as
+lengthOf {
+4294967296
+    /// triple
+// trailing space 
+
+  ://	t
+    repeatCount 
+, 3:
+    leftPad
+}
+,
+
+Z9_ 
+@calculatedFrom(""" ++ [233]%N ++ runes_of_ascii "t" ++ [233]%N ++ runes_of_ascii """
+)
+
+    `two words`
+
+,
+match
+	msg_type as 
+Logon 
+{ 3
+:	options1
+
+},	repeat
+i64_ // 50% %s
+tag
+    `line1
+line2`  ,
+    }
+    , 
+},
+// " ++ [128512]%N ++ runes_of_ascii " emoji
+    	// a // b
+    	i64 	 //	t
+
+	f32a`two words`
+	, u
+	@lengthOf( 
+matchKey
+	)  // 50% %s
+      `a\`
+
+    , } ,
+
+    int8 
+
+// packet A { u8 x, }
+
+packetx
+
+,
+    // packet A { u8 x, }
+    }  MetaData
+i64_  {	uint16	body ,  }	options
+
+{ u8x
+=1; len
+
+=char[
+007
+
+]
+
+;
+	_x 
+
+//x
+// a // b
+=
+
+    """ ++ [128512]%N ++ runes_of_ascii """
+}  // " ++ [27880; 37322]%N ++ runes_of_ascii "
+")).
+Eval vm_compute in ("<<<M3691>>>" ++ check (runes_of_ascii "//x
+    packet
+float
+{uint8
+
+calculatedFrom `tab	here` 
+,
+    }
+root
+
+packet  Packet
+    {	/// triple
+	  match 
+calculatedFrom
+
+    as
+leftPad{""" ++ [28040; 24687]%N ++ runes_of_ascii """:u
+,
+    } , match chars	//	t
+as
+    int
+{""x y"" :	trueish  ,  
+  // @lengthOf(
+
+	65535 
+
+// `tick` ""quote"" 'q'
+  //	t
+: asx  [
+	1 ,
+
+    3,
+    007 
+, 7
+
+    ,  ""it's""
+
+    ]  : 
+
+    // trailing space 
+  	//
+
+calculatedFrom
+
+,
+
+}
+    , 
+uint16
+	options1
+@lengthOf( 
+a1 )
+
+,
+    u64	asx 	 /// triple
+    @calculatedFrom(""abc"" )  ,	} 
+packet  leftPad{float32
+packetx 
+  //x
+  	@lengthOf( Packet ),
+	    // @lengthOf(
+
+/// triple
+    @tag( 
+00)@leftPad 
+    //x
+
+	// packet A { u8 x, }
+
+(
+'\x00'
+
+    ) 
+@calculatedFrom(
+
+    """ ++ [128512]%N ++ runes_of_ascii """)
+	Packet {  // `tick` ""quote"" 'q'
+  uint16	x_y_z 
+@calculatedFrom( 
+""{,}""
+)	,  } , repeat 
+rootA	{zchar[
+	0]i64_
+	,	i8
+Logon@lengthOf( asx )
+	, } ,
+	match
+    msg_type as 
+leftPad
+{
+	[
+
+""" ++ [28040; 24687]%N ++ runes_of_ascii """
+] :
+Z9_,
+},
+
+}
+")).
+Eval vm_compute in ("<<<M1087>>>" ++ check (runes_of_ascii "root
+packet Logon { @tag(
+// 50% %s
+// @lengthOf(
+7 ) zchar[ 1 ]matchKey `say ""hi""` ,
+    rootA
+    `" ++ [233]%N ++ runes_of_ascii "`
+    ,
+match
+    // packet A { u8 x, }
+    string_ //x
+as trueish {// trailing space 
+[ 4294967296] : BodyLength , // 50% %s
+7 :
+BodyLength
+, [""// no comment""
+    , 65535
+    ,
+42 ,
+    ""it's"" ,""\" ++ [233]%N ++ runes_of_ascii """ ]// a // b
+: len
+[ 1 ,""// no comment""  ]
+    : matchKey ""packet""
+: //x
+Pad
+    ,	} , @tag(10 )
+// 50% %s
+/// triple
+@rightPad( '0'  ) char[ 1] /// triple
+x_y_z
+    @calculatedFrom( """ ++ [28040; 24687]%N ++ runes_of_ascii """ )
+`" ++ [28040; 24687; 31867; 22411]%N ++ runes_of_ascii "`
+, repeat string i64_ `u8 x,` ,char[] leftPad , @calculatedFrom(
+""" ++ [28040; 24687]%N ++ runes_of_ascii """) match Packet as
+chars // a // b
+{ ""\" ++ [233]%N ++ runes_of_ascii """ :metadata  ,
+    } , }
+packet
+packetx { uint32 len
+@calculatedFrom( """ ++ [28040; 24687]%N ++ runes_of_ascii """
+)  `tab	here`,@rightPad  (	' ' ) uint8 u128 `crlf
+line`	, @rightPad  ('0' ) @lengthOf(
+zchar /// triple
+) @tag(
+    3
+) string
+Logon , repeat
+// a // b
+/// triple
+int16 charz, }")).
+Eval vm_compute in ("<<<M1204>>>" ++ check (runes_of_ascii "
+packet Z9_ { repeatCount
+    // `tick` ""quote"" 'q'
+    { match Packet
+as pack{ [""" ++ [128512]%N ++ runes_of_ascii """
+]: Header 65535 : trueish,},
+len
+    , //	t
+pack @calculatedFrom(
+    // 50% %s
+    ""x y"" )	,
+}
+,
+char[ 0123456789]// a // b
+x
+    ,
+// a // b
+// " ++ [27880; 37322]%N ++ runes_of_ascii "
+}  packet Packet {
+uint16
+msg_type@calculatedFrom(
+    """ ++ [128512]%N ++ runes_of_ascii """ ), f32 crc @lengthOf(	repeatCount )
+    `// not a comment` , u32  i64_,@tag( // `tick` ""quote"" 'q'
+0123456789	)
+    asx {
+    asx { repeat
+zchar repeatCount `a\`
+    // " ++ [27880; 37322]%N ++ runes_of_ascii "
     ,
 // " ++ [27880; 37322]%N ++ runes_of_ascii "
-//
-""\n""
-,""a\\""
+// @lengthOf(
+Logon
 ,
-    255 ]
-    : T // c
-} // @lengthOf(
-, repeat float64 x,
-zchar[ 00 // `tick` ""quote"" 'q'
-] chars,
-} //	t")).
-Eval vm_compute in ("<<<M1249>>>" ++ check (runes_of_ascii "// top
-packet
+    match calculatedFrom as
+crc {
+// packet A { u8 x, }
+// a // b
+""" ++ [28040; 24687]%N ++ runes_of_ascii """// `tick` ""quote"" 'q'
+:
+    MetaDataX
+,3 :len ,	[ ""1""
+    ]: zchar
+0
+: f32a ,// `tick` ""quote"" 'q'
+} , } , char[
+1	] pack , string
+    uint8x@calculatedFrom( ""it's"" )
+`line1
+line2` ,
+} ,	} // " ++ [128512]%N ++ runes_of_ascii " emoji
+MetaData Foo
+    {
+// " ++ [27880; 37322]%N ++ runes_of_ascii "
+//	t
+} // 50% %s")).
+Eval vm_compute in ("<<<M1183>>>" ++ check (runes_of_ascii "packet
+body {// @lengthOf(
+repeat	i8i8 {
+match // c
+calculatedFrom as  T {  255 : repeatCount // `tick` ""quote"" 'q'
+,
+    [ // " ++ [128512]%N ++ runes_of_ascii " emoji
+65535
+    ,  ""it's"" , ""a	b""
+, 007, ""`tick`"" , 10,
+""`tick`"" , 4294967296 ] :
+    float [ 42	,  0123456789
+    ,  ""`tick`"" , ""a\\"",
+""1"" ,007
+] : packetx , } ,
+} , i8 string_ @lengthOf( Z9_  ) , char[
+255	]
+    roots @calculatedFrom( """" )  `u8 x,` ,
+}
+// packet A { u8 x, }
+//x
+packet // 50% %s
+_x
+    {  @tag(00 )repeat a1 { char[] i8i8 @calculatedFrom( ""\" ++ [233]%N ++ runes_of_ascii """ ) , options1  @lengthOf( Foo ) ,
+u32 falsey , f32 f32a @calculatedFrom( ""`tick`""
+    ) , }, char T ,
+}
+// c
+// a // b
+MetaData falsey{ /// triple
+x falsey
+    ,u16 msg_type
+    `a\` , calculatedFrom  crc /// triple
+`it's` , char[ 7
+    ]// c
+Z9_// " ++ [27880; 37322]%N ++ runes_of_ascii "
+`tab	here`,zchar[ 0 ] BodyLength `" ++ [233]%N ++ runes_of_ascii "` ,
+}
+
+")).
+Eval vm_compute in ("<<<M4309>>>" ++ check (runes_of_ascii "MetaData leftPad {
+    f32a BodyLength,
+    i8 stringy `two words`,
+    zchar[42] calculatedFrom,
+    string chars,
+}
+
+options {
+    u = 3
+}
+
+packet lengthOf {
+    repeat u `
+    `,
+    i64_ `" ++ [28040; 24687; 31867; 22411]%N ++ runes_of_ascii "`,
+    @rightPad()
+    As float,
+    zchar[7] options1 @calculatedFrom(""a	b""),
+    char[] _x @calculatedFrom(""" ++ [128512]%N ++ runes_of_ascii """),
+    @rightPad(' ')
+    Header `it's`,
+    i8 tag @calculatedFrom(""" ++ [233]%N ++ runes_of_ascii "t" ++ [233]%N ++ runes_of_ascii """) ``,
+    metadata @calculatedFrom(""// no comment""),
+}
+
+packet Foo {
+    @calculatedFrom(""\n"")
+    @rightPad()
+    match T as Pad {
+        """ ++ [28040; 24687]%N ++ runes_of_ascii """ : Header,
+    },
+    u {
+        chars @calculatedFrom(""\" ++ [233]%N ++ runes_of_ascii """),
+    },
+    @calculatedFrom(""a\""b"")
+    @calculatedFrom(""" ++ [128512]%N ++ runes_of_ascii """)
+    // packet A { u8 x, }
+    @lengthOf(BodyLength)
+    uint8x @calculatedFrom(""`tick`""),
+    i32 u,
+}")).
+Eval vm_compute in ("<<<M437>>>" ++ check (runes_of_ascii "root packet metadata{i8	Z9_ // c
+@calculatedFrom(""packet"" // c
+)	,
+@tag(
+42
+    )@lengthOf(  packetx// trailing space 
+)
+    @lengthOf(// `tick` ""quote"" 'q'
+calculatedFrom //
+)	Foo /// triple
+_x // `tick` ""quote"" 'q'
+, @tag( 4294967296)	match Foo as u8x{ 1
+:
+    crc ""a\""b""
+: BodyLength// " ++ [128512]%N ++ runes_of_ascii " emoji
+42: i64_,
+} ,@calculatedFrom( """ ++ [28040; 24687]%N ++ runes_of_ascii """ )
+    repeatCount , repeat
+    // @lengthOf(
+    zchar[ 1 ]
+    u8x
+,@rightPad ( '0' ) @calculatedFrom(
+    """ ++ [128512]%N ++ runes_of_ascii """ //
+) @calculatedFrom( ""it's""  ) zchar[ 0123456789
+] falsey ,
+    repeat
+i8i8{match uint8x	as A { ""{,}""// c
+: len ,  } ,zchar[ 007] // trailing space 
+T `" ++ [233]%N ++ runes_of_ascii "`
+    ,	x
+    /// triple
+    BodyLength ,repeat
+    zchar[	1 ]BodyLength `say ""hi""`, // @lengthOf(
+} ,
+}
+//	t
+")).
+Eval vm_compute in ("<<<M4346>>>" ++ check (runes_of_ascii "packet o {
+}
+
+options {
+}
+
+root packet matchKey {
+    // trailing space 
+    uint32 stringy,
+    int64 msg_type @calculatedFrom(""" ++ [233]%N ++ runes_of_ascii "t" ++ [233]%N ++ runes_of_ascii """) `{ , }`,
+    repeat Logon {
+        repeat roots Header `two words`,
+        u16 falsey `// not a comment`,
+    },
+    tag @calculatedFrom(""CRC32"") `crlf
+    line`,
+    char[] Pad `100% of %d`,
+    match Header as falsey {
+        """ ++ [28040; 24687]%N ++ runes_of_ascii """ : string_,
+        // a // b
+        7 : x_y_z,
+        [
+            ""`tick`"", ""`tick`"", 0123456789, 65535, 7,
+            65535, ""abc""
+        ] : MetaDataX,
+    },
+    i64_ crc,
+}
+
+options {
+    zchar = char[4294967296];
+    leftPad = 0123456789;
+    trueish = """"
+    //x
+    //	t
+    Logon = '\x00';
+}")).
+Eval vm_compute in ("<<<M3395>>>" ++ check (runes_of_ascii "// top
+MetaData
     // c0
-calculatedFrom
+Pad
     // c1
 {
     // c2
-@tag(
+x_y_z
     // c3
-4294967296
+a1
     // c4
-)
+,
     // c5
-u
+int8
     // c6
-msg_type
+trueish
     // c7
-,
+`two words`
     // c8
-char[
-    // c9
-3
-    // c10
-]
-    // c11
-crc
-    // c12
-@lengthOf(
-    // c13
-len
-    // c14
-)
-    // c15
-`u8 x,`
-    // c16
 ,
+    // c9
+char[]
+    // c10
+x_y_z
+    // c11
+`{ , }`
+    // c12
+,
+    // c13
+zchar[
+    // c14
+1
+    // c15
+]
+    // c16
+pack
     // c17
-}
+`
+`
     // c18
+,
+    // c19
+len
+    // c20
+i64_
+    // c21
+,
+    // c22
+}
+    // c23
+MetaData
+    // c24
+crc
+    // c25
+{
+    // c26
+zchar[
+    // c27
+7
+    // c28
+]
+    // c29
+Z9_
+    // c30
+,
+    // c31
+char[]
+    // c32
+options1
+    // c33
+,
+    // c34
+uint32
+    // c35
+options1
+    // c36
+,
+    // c37
+u
+    // c38
+MetaDataX
+    // c39
+,
+    // c40
+}
+    // c41
 ")).
-Eval vm_compute in ("<<<M264>>>" ++ check (runes_of_ascii "
-packet tag { char[]i64_
-    `crlf
-line`, @tag(4294967296	)
-repeat // c
-f32a { char[]
-u8x @lengthOf( Foo)
-    `{ , }` ,
-match
-Foo // " ++ [128512]%N ++ runes_of_ascii " emoji
-as
-packetx {255 : uint8x [	""\" ++ [233]%N ++ runes_of_ascii """ ]
-: matchKey ,} ,	},
-As @calculatedFrom( ""a	b"" )
-`doc`, char[] BodyLength `two words`	, }
-")).
-Eval vm_compute in ("<<<M108>>>" ++ check (runes_of_ascii "packet T {	match Packet as
-// c
-// " ++ [27880; 37322]%N ++ runes_of_ascii "
-Header { 42 : BodyLength , ""// no comment""
+Eval vm_compute in ("<<<M949>>>" ++ check (runes_of_ascii "  MetaData pack { pack x
+`" ++ [233]%N ++ runes_of_ascii "`
+,} packet u	{ match
+len
+    as roots
+{
+    [ 3 , 0123456789
+    , ""1"",""" ++ [128512]%N ++ runes_of_ascii """ , 1,
 // `tick` ""quote"" 'q'
-// packet A { u8 x, }
-: matchKey ""`tick`"" :
-crc ,	[ 1  ]	:o, } ,	}// " ++ [128512]%N ++ runes_of_ascii " emoji
-packet As {
-} options  { u128
-= //x
-' '
-body=
-    char[] }
-")).
-Eval vm_compute in ("<<<M487>>>" ++ check (runes_of_ascii "options
-{
-matchKey = 42/// triple
-x='0' ;
-// packet A { u8 x, }
 //
-charz
-=
-// packet A { u8 x, }
-// trailing space 
-true  ; } MetaData BodyLength
-{
-uint8
-pack,zchar[ zchar[ 1]float ,  float32 x_y_z `` ,u32
-_x,i16 body  , }
-")).
-Eval vm_compute in ("<<<M454>>>" ++ check (runes_of_ascii "options
-{
-matchKey = 42/// triple
-x='0' ;
-// packet A { u8 x, }
-//
-charz
-=
-// packet A { u8 x, }
-// trailing space 
-true  ; ""\n"" MetaData BodyLength
-{
-uint8
-pack,zchar[ 1]float ,  float32 x_y_z `` ,u32
-_x,i16 body  , }
-")).
-Eval vm_compute in ("<<<M474>>>" ++ check (runes_of_ascii "options
-{
-matchKey = 42/// triple
-x='0' ;
-// packet A { u8 x, }
-//
-charz
-=
-// packet A { u8 x, }
-// trailing space 
-true  ; } MetaData BodyLength
-{
-Packet
-pack,zchar[ 1]float ,  float32 x_y_z `` ,u32
-_x,i16 body  , }
-")).
-Eval vm_compute in ("<<<M449>>>" ++ check (runes_of_ascii "options
-{
-matchKey = 42/// triple
-x='0' ;
-// packet A { u8 x, }
-//
-charz
-=
-// packet A { u8 x, }
-// trailing space 
-true  } } MetaData BodyLength
-{
-uint8
-pack,zchar[ 1]float ,  float32 x_y_z `` ,u32
-_x,i16 body  , }
-")).
-Eval vm_compute in ("<<<M491>>>" ++ check (runes_of_ascii "options
-{
-matchKey = 42/// triple
-x='0' ;
-// packet A { u8 x, }
-//
-charz
-=
-// packet A { u8 x, }
-// trailing space 
-true  ; } MetaData BodyLength
-{
-uint8
-pack,zchar[ ]float ,  float32 x_y_z `` ,u32
-_x,i16 body  , }
-")).
-Eval vm_compute in ("<<<M1821>>>" ++ check (runes_of_ascii "root packet BodyLength {
-    metadata {
-        calculatedFrom,
-        zchar[007] msg_type @lengthOf(int) `say ""hi""`,
-        chars uint8x,
-        string As @calculatedFrom(""a	b"") `
-        `,/// triple
-    },
-}")).
-Eval vm_compute in ("<<<M1414>>>" ++ check (runes_of_ascii "
-root packet
-	Frame{
-
-    u8 K
-,Logon
-	first ,
-match K
-
-as
-Body{
-	1
+255, 1 ]: matchKey , [	""x y""
+    , ""1"" ]:A 255 : Logon, 1 :
+    // `tick` ""quote"" 'q'
+    Z9_//x
+,
+    }
+    //x
+    ,repeat float ,  @tag( 0
+    ) string pack@calculatedFrom( """ ++ [28040; 24687]%N ++ runes_of_ascii """
+    ) , char[ 3 ] charz @calculatedFrom(
+    ""\" ++ [233]%N ++ runes_of_ascii """) , @lengthOf( u )@leftPad
+( // a // b
+'0' )
+match BodyLength
+    as msg_type // " ++ [128512]%N ++ runes_of_ascii " emoji
+{ 10 :As ,[ 10 ,""CRC32"" ]:
+    crc , 1
+/// triple
+//	t
+:	matchKey ""// no comment"" : calculatedFrom ,
+7: calculatedFrom , ""`tick`""
     :
-Logon
-    ,2
-    :
-    Logout , 
-}  ,}
+zchar
+    }
+,
+    As tag, }
+")).
+Eval vm_compute in ("<<<M972>>>" ++ check (runes_of_ascii "// a // b
 packet
-Logon
+    Pad {  char uint8x @lengthOf( Z9_ )  , @tag( 42)@calculatedFrom( ""it's"" ) @leftPad ( '\x00'  ) float @lengthOf( int )
+    , char[//x
+1
+] MetaDataX @calculatedFrom( ""packet"" // trailing space 
+) `100% of %d` ,
+string o@calculatedFrom(""" ++ [128512]%N ++ runes_of_ascii """ //
+) // trailing space 
+,
+int64 asx @calculatedFrom( ""CRC32""
+    ),
+} MetaData Logon {
+char[
+42 ]  rootA
+    `say ""hi""` , int32 a1 ,
+    repeatCount options1 ,char[] BodyLength , Foo  x
+, char[
+    00 ] repeatCount
+    ,
+    } options
+{
+pack=""" ++ [128512]%N ++ runes_of_ascii """ pack = 42 ; //
+options1 = ""it's""	u = u16
+    // c
+    ; float	=
+string }
+// @lengthOf(
+")).
+Eval vm_compute in ("<<<M3980>>>" ++ check (runes_of_ascii "root packet charz {
+    i8i8 @calculatedFrom(""a\\""),
+    body roots,
+}
 
-    { string
-    user ,	} packet
-	Logout
-{ u16 reason,
-	}
-")).
-Eval vm_compute in ("<<<M691>>>" ++ check (runes_of_ascii "// c
-packet i64_ {	char[] calculatedFrom , } packet
-trueish  {@calculatedFrom(
-""a\\"" ) char[] { i32 falsey@lengthOf( uint8x ),
-} , } // `tick` ""quote"" 'q'
-options {// c
-Z9_ = ' '//
-}
-")).
-Eval vm_compute in ("<<<M679>>>" ++ check (runes_of_ascii "// c
-packet { i64_	char[] calculatedFrom , } packet
-trueish  {@calculatedFrom(
-""a\\"" ) o { i32 falsey@lengthOf( uint8x ),
-} , } // `tick` ""quote"" 'q'
-options {// c
-Z9_ = ' '//
-}
-")).
-Eval vm_compute in ("<<<M242>>>" ++ check (runes_of_ascii "  options{
-    // trailing space 
-    A = ' '
-    ; calculatedFrom
-// c
-// a // b
-=
-    ""a\""b""
-;
-msg_type  =	char[ 4294967296] ;
-    //
-    rootA
-= '\x00' msg_type	= false }")).
-Eval vm_compute in ("<<<M1806>>>" ++ check (runes_of_ascii "packet A {
-    match k as n {
-        [
-            ""a"", 22, ""c c"", 4, ""e"",
-            66, ""g"", 8, ""i"", 10,
-            ""k""
-        ] : B,
-        2 : C,
+packet msg_type {
+    @lengthOf(asx)
+    repeat Header {
+        match BodyLength as msg_type {
+            [00, 3] : BodyLength,
+            [0123456789, ""it's""] : charz,
+            // " ++ [27880; 37322]%N ++ runes_of_ascii "
+            0123456789 : msg_type,
+        },
+        char[42] i64_ @calculatedFrom(""packet"") `a\`,
+        zchar[0] options1 `tab	here`,
     },
+    @calculatedFrom(""\n"")
+    zchar[255] msg_type,//x
+    match repeatCount as repeatCount {
+        42 : rootA,
+    },
+}
+
+options {
+    calculatedFrom = true
 }")).
-Eval vm_compute in ("<<<M353>>>" ++ check (runes_of_ascii "packet x  {match u128
-as stringy// " ++ [128512]%N ++ runes_of_ascii " emoji
-{ // a // b
-[ """ ++ [28040; 24687]%N ++ runes_of_ascii """
-    //	t
-    ,	42 , ""// no comment"" // a // b
-,""1""] :MetaDataX
-, ""it's"" :o	,} ,
+Eval vm_compute in ("<<<M802>>>" ++ check (runes_of_ascii "// `tick` ""quote"" 'q'
+packet Header // " ++ [27880; 37322]%N ++ runes_of_ascii "
+{ zchar[
+    // packet A { u8 x, }
+    00
+]
+Pad@lengthOf(  falsey
+) `100% of %d`//x
+, match
+    Foo as i64_ { [ 255
+,
+    ""// no comment""//	t
+,  """" //	t
+, ""a	b"", 10 ,// " ++ [128512]%N ++ runes_of_ascii " emoji
+""x y"", ""a\""b""] :
+o ,
+42
+    : trueish,
+// " ++ [27880; 37322]%N ++ runes_of_ascii "
+// trailing space 
+7 : falsey
+    ,
+""\" ++ [233]%N ++ runes_of_ascii """
+    :	uint8x } ,	i8i8
+@lengthOf( options1),
+char[] zchar // " ++ [27880; 37322]%N ++ runes_of_ascii "
+@calculatedFrom(
+    """ ++ [128512]%N ++ runes_of_ascii """ ) `doc` ,}packet
+    trueish {	@tag( 0 ) string msg_type @calculatedFrom(
+    // trailing space 
+    ""{,}""
+    ) `` ,Z9_ @calculatedFrom(	""1"" ) , }")).
+Eval vm_compute in ("<<<M4256>>>" ++ check (runes_of_ascii "options {
+    LittleEndian = true;
+}
+
+packet Logon {
+    // c9a
+    // c9b
+    u8 x,// c12
+}// c13
+
+packet Logout {
+    // c16
+    u16 reason,// c19
+}// c20a
+
+// c20b
+root packet Frame {
+    u16 Kind,// c27
+    u16 Kind2,// c30a
+    // c30b
+    match Kind as Body {
+        // c35
+        1 : Logon,
+        // c39
+        [2, 3, 4] : Logout,
+        // c49
+        100 : Logon,
+        // c53
+    },// c55
+    match Kind2 as Trailer {
+        // c60a
+        // c60b
+        0 : Logout,
+    },// c66a
+    // c66b
+}// c67a
+// c67b")).
+Eval vm_compute in ("<<<M583>>>" ++ check (runes_of_ascii "
+MetaData
+i64_
+{ uint8x// c
+As
+    `say ""hi""` , body options1 `
+`
+    ,
+    // packet A { u8 x, }
+    string_
+    chars ,
+    u64 f32a , }	root
+packet T { @tag( 00
+    )
+    pack @calculatedFrom( ""// no comment""
+    // `tick` ""quote"" 'q'
+    )
+,	lengthOf rootA`" ++ [233]%N ++ runes_of_ascii "`
+, @lengthOf( i64_
+    )repeat falsey{
+repeat BodyLength
+    {
+    len
+// packet A { u8 x, }
+// @lengthOf(
+,} // " ++ [128512]%N ++ runes_of_ascii " emoji
+,
+    uint32 crc	@lengthOf(stringy
+// @lengthOf(
+// " ++ [27880; 37322]%N ++ runes_of_ascii "
+) `" ++ [28040; 24687; 31867; 22411]%N ++ runes_of_ascii "` ,
+} , // " ++ [128512]%N ++ runes_of_ascii " emoji
+u8
+i64_
+@lengthOf(	rootA) ,
     }
 ")).
-Eval vm_compute in ("<<<M1790>>>" ++ check (runes_of_ascii "
-packet
-Logon {
-
-    @tag(
-    42
-) @rightPad (
-
-' '
-	) @leftPad
-
-    (
-
-)  repeat  trueish
-
-    {
-    // c
-	string
-T	,}
+Eval vm_compute in ("<<<M921>>>" ++ check (runes_of_ascii "root  packet Header{o// c
+rootA `100% of %d` , @calculatedFrom(""abc"") @rightPad	( ) @tag(
+//x
+// a // b
+255)
+    repeat asx `
+`,
+    repeat x_y_z zchar `line1
+line2`, } // `tick` ""quote"" 'q'
+packet charz { }
+root packet matchKey	{BodyLength
+{ match A as /// triple
+options1 { [ 4294967296
+,""\n""] : leftPad//x
 , }
+, repeat char[ 7 ]
+    /// triple
+    x // a // b
+, string
+    rootA @lengthOf(
+    repeatCount)
+    ,u32
+string_`" ++ [28040; 24687; 31867; 22411]%N ++ runes_of_ascii "`
+, } ,
+    falsey stringy `crlf
+line` ,}
+")).
+Eval vm_compute in ("<<<M4433>>>" ++ check (runes_of_ascii "  // top
+
+options// c0
+    	{// c1
+	  }	// c2
+  	options	// c3
+
+{ 	 // c4
+string_ 	 // c5
+  = 	 // c6
+    false // c7
+	; // c8
+	msg_type  // c9
+
+	= 	 // c10
+""1"" 	 // c11
+    ;// c12
+	}// c13
+    MetaData  // c14
+
+  lengthOf// c15
+{// c16
+  	zchar[ 	 // c17
+
+4294967296	// c18
+] // c19
+		Z9_// c20
+	,  // c21
+	uint8 // c22
+i8i8// c23
+	`two words`	// c24
+
+	,	// c25
+
+  char[ 	 // c26
+	7// c27
+  	]	// c28
+charz	// c29
+    , // c30
+  }  // c31
+")).
+Eval vm_compute in ("<<<M77>>>" ++ check (runes_of_ascii "options
+{
+    }
+    root packet  _x { tag @lengthOf(
+    u8x	), @calculatedFrom( ""x y"" ) // packet A { u8 x, }
+string Logon ,}
+/// triple
+// @lengthOf(
+packet Logon	{string
+// trailing space 
+// `tick` ""quote"" 'q'
+falsey @calculatedFrom(
+    ""{,}""  )
+    // trailing space 
+    `u8 x,`
+// a // b
+// packet A { u8 x, }
+,// `tick` ""quote"" 'q'
+@leftPad (// a // b
+'0' ) u16 options1 `100% of %d` , @tag(007
+    )
+    string Logon`u8 x,` , }
+")).
+Eval vm_compute in ("<<<M310>>>" ++ check (runes_of_ascii "packet
+matchKey
+    // trailing space 
+    { char[ 7
+    ] /// triple
+T
+@lengthOf(matchKey  ) ,	match
+    leftPad as options1
+    {
+    [  ""x y""
+]  :
+As , } , falsey @calculatedFrom(""{,}""
+) , @rightPad (
+    // c
+    '0' ) @calculatedFrom( ""a\\"")
+zchar[4294967296
+]
+    asx
+`doc` , len, body@calculatedFrom( ""abc"" ) , i64 len @calculatedFrom( ""`tick`"" )
+`100% of %d`, @lengthOf( a1 )
+char[] metadata , //x
+} options { }")).
+Eval vm_compute in ("<<<M3624>>>" ++ check (runes_of_ascii "packet roots {
+    string zchar,
+    repeat string matchKey `line1
+    line2`,
+    repeat i32 x,
+    u32 a1 @calculatedFrom(""" ++ [233]%N ++ runes_of_ascii "t" ++ [233]%N ++ runes_of_ascii """),
+    @rightPad()
+    //x
+    @tag(007)
+    @calculatedFrom(""a	b"")
+    repeat roots `two words`,
+    match Packet as zchar {
+        ""CRC32"" : Logon,
+    },
+    @calculatedFrom(""{,}"")
+    @lengthOf(a1)
+    repeat u128 {
+        repeat zchar[007] packetx,
+    },
+    a1,
+}// 50% %s")).
+Eval vm_compute in ("<<<M4132>>>" ++ check (runes_of_ascii "root packet lengthOf {
+    @tag(007)
+    @leftPad(' ')
+    @tag(10)
+    i64_ @calculatedFrom(""it's"") `it's`,
+    @lengthOf(i8i8)
+    @tag(3)
+    @tag(1)
+    zchar[7] _x @lengthOf(trueish) `// not a comment`,
+    zchar[65535] trueish,
+    @lengthOf(MetaDataX)
+    @calculatedFrom(""CRC32"")
+    int64 rootA,
+}
+
+options {
+    falsey = '0';
+}
+
+options {
+    Header = zchar[255];
+    matchKey = 7;
+}")).
+Eval vm_compute in ("<<<M1333>>>" ++ check (runes_of_ascii "//x
+root packet u128 // " ++ [128512]%N ++ runes_of_ascii " emoji
+{
+    string pack , char[
+3 ] a1 @lengthOf( chars)  `// not a comment`	,
+    repeat
+    int8 packetx `" ++ [233]%N ++ runes_of_ascii "` , match len as repeatCount { 1 :
+string_ [ ""it's""// " ++ [27880; 37322]%N ++ runes_of_ascii "
+] ://	t
+calculatedFrom, """ ++ [28040; 24687]%N ++ runes_of_ascii """
+:
+// trailing space 
+//	t
+MetaDataX
+//	t
+/// triple
+,00
+    :
+A , } /// triple
+,zchar[0 ] u  @lengthOf( uint8x
+    )
+,
+} options{ Pad  =  ""`tick`"" ; }
+")).
+Eval vm_compute in ("<<<M1016>>>" ++ check (runes_of_ascii "//	t
+packet uint8x {
+match
+    // c
+    lengthOf
+as // 50% %s
+int { [
+    ""x y"" ,
+    00  ]:metadata 00: lengthOf // 50% %s
+""a\""b"" :
+    trueish ,// `tick` ""quote"" 'q'
+[ ""abc"" ]: _x  ""`tick`"": Packet ,
+42
+:  int, //x
+} ,  @calculatedFrom( """ ++ [28040; 24687]%N ++ runes_of_ascii """ ) f64 metadata// a // b
+@lengthOf( calculatedFrom ) , }options {
+}packet zchar
+{Foo	`crlf
+line` // @lengthOf(
+,  }")).
+Eval vm_compute in ("<<<M4196>>>" ++ check (runes_of_ascii "packet zchar {
+    string uint8x @calculatedFrom(""a\\""),
+    @rightPad()
+    match zchar as T {
+        65535 : f32a,
+        [""1"", 1, 007] : calculatedFrom,
+        ""\" ++ [233]%N ++ runes_of_ascii """ : metadata,
+        0123456789 : x,
+        3 : trueish,
+    },
+    char[42] o @lengthOf(_x),
+    @lengthOf(BodyLength)
+    @lengthOf(a1)
+    repeat char[] Packet `100% of %d`,
+}")).
+Eval vm_compute in ("<<<M4214>>>" ++ check (runes_of_ascii "options
+
+{ Z9_	=
+
+    ""`tick`"" ;  zchar  =
+	char[ 10 ] } MetaData
+
+    matchKey
+{MetaDataX 	 //x
+    	zchar , 
+    /// triple
+    charz chars
+	`crlf
+line` 
+,metadata 
+BodyLength
+
+    `it's` 
+
+    // " ++ [128512]%N ++ runes_of_ascii " emoji
+,  int16	zchar`line1
+line2` 	 // packet A { u8 x, }
+  ,
+
+int64  _x 
+`say ""hi""`
+,
+
+char[
+7
+
+]packetx/// triple
+	,}
+")).
+Eval vm_compute in ("<<<M1126>>>" ++ check (runes_of_ascii "packet uint8x
+// packet A { u8 x, }
+// @lengthOf(
+{ Header
+    { uint16 metadata @lengthOf( // " ++ [27880; 37322]%N ++ runes_of_ascii "
+MetaDataX // c
+) `// not a comment` , } , metadata repeatCount ,repeat x_y_z
+,
+// @lengthOf(
+//
+chars A ,packetx @calculatedFrom(
+""a\\"") /// triple
+`line1
+line2`  , char[007 //	t
+] a1@lengthOf( A
+    )
+    `
+` ,
+    }
+")).
+Eval vm_compute in ("<<<M368>>>" ++ check (runes_of_ascii "options
+    { }options // trailing space 
+{	metadata =""a\""b"" ; options1
+// trailing space 
+// `tick` ""quote"" 'q'
+= char[];
+} packet
+// @lengthOf(
+/// triple
+x { repeat i32  Packet
+,	falsey matchKey
+, @tag(
+4294967296 )
+    // `tick` ""quote"" 'q'
+    uint32
+roots@lengthOf(len/// triple
+) `line1
+line2`
+, }
+")).
+Eval vm_compute in ("<<<M678>>>" ++ check (runes_of_ascii "//
+MetaData
+// " ++ [128512]%N ++ runes_of_ascii " emoji
+// " ++ [27880; 37322]%N ++ runes_of_ascii "
+Pad
+    { Foo x ,
+//
+//	t
+Pad Header
+    `{ , }` , roots string_, // @lengthOf(
+zchar[ // trailing space 
+3 ] f32a `a\`
+    ,char[42 ] a1
+//
+//	t
+`" ++ [233]%N ++ runes_of_ascii "`, // packet A { u8 x, }
+} options{
+    tag= char[]
+    ;i8i8 =
+// " ++ [128512]%N ++ runes_of_ascii " emoji
+//x
+int8
+;
+string_= int8 } packet A { }
 
 ")).
-Eval vm_compute in ("<<<M299>>>" ++ check (runes_of_ascii "
-packet a1
-{ match i8i8
-    as repeatCount
-    // c
-    { [ 00
-    ] : crc, 3 :f32a 7 : matchKey , 0123456789	: float
-    } , }
+Eval vm_compute in ("<<<M2002>>>" ++ check (runes_of_ascii "packet	packetx { // trailing space 
+x_y_z
+{
+string
+charz ,
+string x// @lengthOf(
+`two words`
+    ,  u8x { // `tick` ""quote"" 'q'
+charz `100% of %d` // packet A { u8 x, }
+,}// " ++ [27880; 37322]%N ++ runes_of_ascii "
+,} , }
+    // a // b
+    packet metadata {  @leftPad ( '0') repeat i32 options1 options1 ,u64 uint8x , }
 ")).
-Eval vm_compute in ("<<<M1850>>>" ++ check (runes_of_ascii "packet A {
+Eval vm_compute in ("<<<M1894>>>" ++ check (runes_of_ascii "packet	packetx { // trailing space 
+x_y_z
+{
+string
+charz ,
+string match// @lengthOf(
+`two words`
+    ,  u8x { // `tick` ""quote"" 'q'
+charz `100% of %d` // packet A { u8 x, }
+,}// " ++ [27880; 37322]%N ++ runes_of_ascii "
+,} , }
+    // a // b
+    packet metadata {  @leftPad ( '0') repeat i32 options1 ,u64 uint8x , }
+")).
+Eval vm_compute in ("<<<M1952>>>" ++ check (runes_of_ascii "packet	packetx { // trailing space 
+x_y_z
+{
+string
+charz ,
+string x// @lengthOf(
+`two words`
+    ,  u8x { // `tick` ""quote"" 'q'
+charz `100% of %d` // packet A { u8 x, }
+,}// " ++ [27880; 37322]%N ++ runes_of_ascii "
+,} , } }
+    // a // b
+    packet metadata {  @leftPad ( '0') repeat i32 options1 ,u64 uint8x , }
+")).
+Eval vm_compute in ("<<<M1893>>>" ++ check (runes_of_ascii "packet	packetx { // trailing space 
+x_y_z
+{
+string
+charz ,
+string `two words`// @lengthOf(
+x
+    ,  u8x { // `tick` ""quote"" 'q'
+charz `100% of %d` // packet A { u8 x, }
+,}// " ++ [27880; 37322]%N ++ runes_of_ascii "
+,} , }
+    // a // b
+    packet metadata {  @leftPad ( '0') repeat i32 options1 ,u64 uint8x , }
+")).
+Eval vm_compute in ("<<<M4149>>>" ++ check (runes_of_ascii "root packet
+	float  { @calculatedFrom( ""// no comment"") 
+Pad
+uint8x// a // b
+`tab	here`
+
+    , @leftPad (
+) repeat
+pack
+
+{ i8
+packetx`doc` ,
+}
+,
+zchar[
+	0123456789
+
+] metadata ,@rightPad  ()@lengthOf(
+leftPad
+
+)
+    repeat
+
+    char[ 7 ]
+u8x
+    `line1
+line2`
+    ,
+}
+
+")).
+Eval vm_compute in ("<<<M1959>>>" ++ check (runes_of_ascii "packet	packetx { // trailing space 
+x_y_z
+{
+string
+charz ,
+string x// @lengthOf(
+`two words`
+    ,  u8x { // `tick` ""quote"" 'q'
+charz `100% of %d` // packet A { u8 x, }
+,}// " ++ [27880; 37322]%N ++ runes_of_ascii "
+,} , }
+    // a // b
+    i64 metadata {  @leftPad ( '0') repeat i32 options1 ,u64 uint8x , }
+")).
+Eval vm_compute in ("<<<M2016>>>" ++ check (runes_of_ascii "packet	packetx { // trailing space 
+x_y_z
+{
+string
+charz ,
+string x// @lengthOf(
+`two words`
+    ,  u8x { // `tick` ""quote"" 'q'
+charz `100% of %d` // packet A { u8 x, }
+,}// " ++ [27880; 37322]%N ++ runes_of_ascii "
+,} , }
+    // a // b
+    packet metadata {  @leftPad ( '0') repeat i32 options1 ,u64  , }
+")).
+Eval vm_compute in ("<<<M2052>>>" ++ check (runes_of_ascii "packet packet// packet A { u8 x, }
+repeatCount	{// packet A { u8 x, }
+@leftPad ( '\x00'
+) repeat u8x MetaDataX `crlf
+line`,
+    repeat
+    char[] MetaDataX
+    ,
+u64	uint8x@calculatedFrom(""a\""b""
+// c
+// packet A { u8 x, }
+) `tab	here`
+,//
+}MetaData pack
+    {
+    }
+")).
+Eval vm_compute in ("<<<M3923>>>" ++ check (runes_of_ascii "MetaData calculatedFrom {
+    float u,
+    int32 roots ``,
+    char[0123456789] x_y_z,
+    char u128,//	t
+}
+
+root packet falsey {
+    @rightPad(' ')
+    /// triple
+    @lengthOf(stringy)
+    @calculatedFrom(""abc"")
+    T u8x,
+    uint8x @calculatedFrom(""`tick`""),
+}")).
+Eval vm_compute in ("<<<M3577>>>" ++ check (runes_of_ascii "options {
+    LittleEndian = true;
+}
+packet Sub {
+    u8 a,
+    @calculatedFrom(""CRC16"") i16 SubSum,
+}
+root packet Frame {
+    u16 MsgType,
+    u16 BodyLen @lengthOf(Body),
+    Sub Body,
+    string note,
+    @calculatedFrom(""CRC16"") i16 Checksum,
+    u8 tail,
+}
+")).
+Eval vm_compute in ("<<<M2096>>>" ++ check (runes_of_ascii "packet// packet A { u8 x, }
+repeatCount	{// packet A { u8 x, }
+@leftPad ( '\x00'
+) repeat u8x `crlf
+line` MetaDataX,
+    repeat
+    char[] MetaDataX
+    ,
+u64	uint8x@calculatedFrom(""a\""b""
+// c
+// packet A { u8 x, }
+) `tab	here`
+,//
+}MetaData pack
+    {
+    }
+")).
+Eval vm_compute in ("<<<M2179>>>" ++ check (runes_of_ascii "packet// packet A { u8 x, }
+repeatCount	{// packet A { u8 x, }
+@leftPad ( '\x00'
+) repeat u8x MetaDataX `crlf
+line`,
+    repeat
+    char[] MetaDataX
+    ,
+u64	uint8x@calculatedFrom(""a\""b""
+// c
+// packet A { u8 x, }
+) `tab	here`
+,//
+}MetaData pack
+    
+    }
+")).
+Eval vm_compute in ("<<<M1569>>>" ++ check (runes_of_ascii "packet calculatedFrom
+{ @calculatedFrom( ""a\\"" ) zchar[ 4294967296 ]
+calculatedFrom@lengthOf( pack )	`100% of %d` ,char[]body@calculatedFrom( ""// no comment"" )  ,
+@tag( 007) //x
+int8
+leftPad`it's` , repeat pack
+    { repeat repeat char[ 3] body
+,},
+}")).
+Eval vm_compute in ("<<<M2102>>>" ++ check (runes_of_ascii "packet// packet A { u8 x, }
+repeatCount	{// packet A { u8 x, }
+@leftPad ( '\x00'
+) repeat u8x MetaDataX ""\n"",
+    repeat
+    char[] MetaDataX
+    ,
+u64	uint8x@calculatedFrom(""a\""b""
+// c
+// packet A { u8 x, }
+) `tab	here`
+,//
+}MetaData pack
+    {
+    }
+")).
+Eval vm_compute in ("<<<M1561>>>" ++ check (runes_of_ascii "packet calculatedFrom
+{ @calculatedFrom( ""a\\"" ) zchar[ 4294967296 ]
+calculatedFrom@lengthOf( pack )	`100% of %d` ,char[]body@calculatedFrom( ""// no comment"" )  ,
+@tag( 007) //x
+int8
+leftPad`it's` , repeat packet
+    { repeat char[ 3] body
+,},
+}")).
+Eval vm_compute in ("<<<M1630>>>" ++ check (runes_of_ascii "packet calculatedFrom
+{ @calcul" ++ [65279]%N ++ runes_of_ascii "atedFrom( ""a\\"" ) zchar[ 4294967296 ]
+calculatedFrom@lengthOf( pack )	`100% of %d` ,char[]body@calculatedFrom( ""// no comment"" )  ,
+@tag( 007) //x
+int8
+leftPad`it's` , repeat pack
+    { repeat char[ 3] body
+,},
+}")).
+Eval vm_compute in ("<<<M1520>>>" ++ check (runes_of_ascii "packet calculatedFrom
+{ @calculatedFrom( ""a\\"" ) zchar[ 4294967296 ]
+calculatedFrom@lengthOf( pack )	`100% of %d` ,char[]body@calculatedFrom( ""// no comment"" )  ,
+007 @tag() //x
+int8
+leftPad`it's` , repeat pack
+    { repeat char[ 3] body
+,},
+}")).
+Eval vm_compute in ("<<<M1578>>>" ++ check (runes_of_ascii "packet calculatedFrom
+{ @calculatedFrom( ""a\\"" ) zchar[ 4294967296 ]
+calculatedFrom@lengthOf( pack )	`100% of %d` ,char[]body@calculatedFrom( ""// no comment"" )  ,
+@tag( 007) //x
+int8
+leftPad`it's` , repeat pack
+    { repeat char[ ] body
+,},
+}")).
+Eval vm_compute in ("<<<M1433>>>" ++ check (runes_of_ascii "packet calculatedFrom
+{ @calculatedFrom(  ) zchar[ 4294967296 ]
+calculatedFrom@lengthOf( pack )	`100% of %d` ,char[]body@calculatedFrom( ""// no comment"" )  ,
+@tag( 007) //x
+int8
+leftPad`it's` , repeat pack
+    { repeat char[ 3] body
+,},
+}")).
+Eval vm_compute in ("<<<M1985>>>" ++ check (runes_of_ascii "packet	packetx { // trailing space 
+x_y_z
+{
+string
+charz ,
+string x// @lengthOf(
+`two words`
+    ,  u8x { // `tick` ""quote"" 'q'
+charz `100% of %d` // packet A { u8 x, }
+,}// " ++ [27880; 37322]%N ++ runes_of_ascii "
+,} , }
+    // a // b
+    packet metadata {  @leftPad (")).
+Eval vm_compute in ("<<<M3824>>>" ++ check (runes_of_ascii "  options
+	{ FixedStringPadChar =
+    '0'
+    ;
+} packet 
+Q {zchar[
+4 
+]	z
+    ,@rightPad (
+'\x00'
+    ) char[	3
+
+    ] n
+, 
+char[5 ]	d
+
+,	}
+
+root packet R {
+Q
+, zchar[ 
+8 
+]top
+
+    ,
+
+repeat
+    zchar[2	]
+zs
+    ,  }
+")).
+Eval vm_compute in ("<<<M32>>>" ++ check (runes_of_ascii "
+packet //x
+o { @rightPad
+// " ++ [128512]%N ++ runes_of_ascii " emoji
+//
+(
+'\x00'
+) repeat
+//	t
+// " ++ [128512]%N ++ runes_of_ascii " emoji
+char[
+1
+// c
+// a // b
+] asx  , } MetaData // " ++ [128512]%N ++ runes_of_ascii " emoji
+chars {
+}// " ++ [27880; 37322]%N ++ runes_of_ascii "
+options
+    // " ++ [128512]%N ++ runes_of_ascii " emoji
+    { asx =false } //
+MetaData repeatCount { }")).
+Eval vm_compute in ("<<<M1562>>>" ++ check (runes_of_ascii "packet calculatedFrom
+{ @calculatedFrom( ""a\\"" ) zchar[ 4294967296 ]
+calculatedFrom@lengthOf( pack )	`100% of %d` ,char[]body@calculatedFrom( ""// no comment"" )  ,
+@tag( 007) //x
+int8
+leftPad`it's` , repeat")).
+Eval vm_compute in ("<<<M1552>>>" ++ check (runes_of_ascii "packet calculatedFrom
+{ @calculatedFrom( ""a\\"" ) zchar[ 4294967296 ]
+calculatedFrom@lengthOf( pack )	`100% of %d` ,char[]body@calculatedFrom( ""// no comment"" )  ,
+@tag( 007) //x
+int8
+leftPad`it's`")).
+Eval vm_compute in ("<<<M3996>>>" ++ check (runes_of_ascii "
+packet  
+      // @lengthOf(
+	len{
+	char[ 
+42
+    ] rootA
+	@calculatedFrom(  ""a	b""
+	) // c
+    , 
+}  packet stringy
+{ @leftPad(	'\x00'
+)
+i16
+
+Packet
+@lengthOf(zchar) 
+`100% of %d` ,
+}
+")).
+Eval vm_compute in ("<<<M588>>>" ++ check (runes_of_ascii "MetaData
+a1 { zchar lengthOf `{ , }` ,
+options1
+    leftPad , char[  10 ] charz `crlf
+line` , }	packet a1 {i64
+    // a // b
+    body@calculatedFrom(""packet"" )// trailing space 
+, }
+")).
+Eval vm_compute in ("<<<M1940>>>" ++ check (runes_of_ascii "packet	packetx { // trailing space 
+x_y_z
+{
+string
+charz ,
+string x// @lengthOf(
+`two words`
+    ,  u8x { // `tick` ""quote"" 'q'
+charz `100% of %d` // packet A { u8 x, }
+,}")).
+Eval vm_compute in ("<<<M1527>>>" ++ check (runes_of_ascii "packet calculatedFrom
+{ @calculatedFrom( ""a\\"" ) zchar[ 4294967296 ]
+calculatedFrom@lengthOf( pack )	`100% of %d` ,char[]body@calculatedFrom( ""// no comment"" )  ,
+@tag(")).
+Eval vm_compute in ("<<<M4470>>>" ++ check (runes_of_ascii "MetaData MetaDataX {
+    string_ body `crlf
+    line`,
+    uint8 int,
+    zchar[3] body,
+}
+
+MetaData x_y_z {
+    lengthOf rootA `" ++ [28040; 24687; 31867; 22411]%N ++ runes_of_ascii "`,
+    zchar[4294967296] _x,
+}")).
+Eval vm_compute in ("<<<M808>>>" ++ check (runes_of_ascii "root packet calculatedFrom{ }
+    MetaData
+u8x
+    { char[ 42
+    ]
+pack ,zchar[ // " ++ [128512]%N ++ runes_of_ascii " emoji
+0123456789 ]stringy
+,
+//	t
+// `tick` ""quote"" 'q'
+msg_type
+pack,}
+")).
+Eval vm_compute in ("<<<M2395>>>" ++ check (runes_of_ascii "
+packet MetaDataX
+{
+    @leftPad
+( // a // b
+'0'
+) i8 u @lengthOf(
+MetaDataX
+    ) `say ""hi""` ,	} MetaData BodyLength {
+    asx
+x_y_z `" ++ [233]%N ++ runes_of_ascii "`
+, uint64 u128 , }
+@ ")).
+Eval vm_compute in ("<<<M778>>>" ++ check (runes_of_ascii "/// triple
+MetaData// " ++ [27880; 37322]%N ++ runes_of_ascii "
+x { float
+    Logon `doc`,
+trueish u8x // " ++ [128512]%N ++ runes_of_ascii " emoji
+`100% of %d`
+, tag As ,
+uint8 matchKey ,}
+options{ /// triple
+zchar= '0' ; } 	 ")).
+Eval vm_compute in ("<<<M1673>>>" ++ check (runes_of_ascii "options { } packet Packet{char[] i64_ , ,
+@tag(
+    255) match
+crc as i8i8{""{,}"" : trueish """" : Pad , ""a\\"" :
+Foo ,
+    1 :packetx
+, """ ++ [128512]%N ++ runes_of_ascii """ : trueish , } , }")).
+Eval vm_compute in ("<<<M3590>>>" ++ check (runes_of_ascii "packet A {
     u16 len @lengthOf(body) `a
-        b`,
+            b
+          c`,
     u32 crc @calculatedFrom(""CRC32"") `a
-        b`,
+            b
+          c`,
     string body,
 }")).
-Eval vm_compute in ("<<<M71>>>" ++ check (runes_of_ascii "options{ BodyLength=
-    '\x00' }options
-{ } options {  Pad
-    = ""\" ++ [233]%N ++ runes_of_ascii """  msg_type
-= uint32 ; a1 = '0'  Foo =
-    ' ' ; }")).
-Eval vm_compute in ("<<<M2001>>>" ++ check (runes_of_ascii "packet Logon {
-    @tag(42)
-    @rightPad(' ')
-    // c
-    @leftPad()
-    repeat trueish {
-        string T,
-    },
-}")).
-Eval vm_compute in ("<<<M594>>>" ++ check (runes_of_ascii "MetaData
-    // trailing space 
+Eval vm_compute in ("<<<M1645>>>" ++ check (runes_of_ascii "options { packet } Packet{char[] i64_ ,
+@tag(
+    255) match
+crc as i8i8{""{,}"" : trueish """" : Pad , ""a\\"" :
+Foo ,
+    1 :packetx
+, """ ++ [128512]%N ++ runes_of_ascii """ : trueish , } , }")).
+Eval vm_compute in ("<<<M1799>>>" ++ check (runes_of_ascii "options { } packet Packet{char[] i64_ ,
+@tag(
+    255) match
+crc as i8i8{""{,}"" : trueish """" : Pad , ""a\\"" :
+Foo ,
+    1 :packetx
+, """ ++ [128512]%N ++ runes_of_ascii """ trueish : , } , }")).
+Eval vm_compute in ("<<<M1812>>>" ++ check (runes_of_ascii "options { } packet Packet{char[] i64_ ,
+@tag(
+    255) match
+crc as i8i8{""{,}"" : trueish """" : Pad , ""a\\"" :
+Foo ,
+    1 :packetx
+, """ ++ [128512]%N ++ runes_of_ascii """ : trueish ,  , }")).
+Eval vm_compute in ("<<<M997>>>" ++ check (runes_of_ascii "// " ++ [128512]%N ++ runes_of_ascii " emoji
+options {
+msg_type
+    = """ ++ [28040; 24687]%N ++ runes_of_ascii """ } packet //	t
+roots{// c
+char[]charz @calculatedFrom(
+""1"" // 50% %s
+)	`crlf
+line`
+,}
+    packet T {
+    }
+
+")).
+Eval vm_compute in ("<<<M2128>>>" ++ check (runes_of_ascii "packet// packet A { u8 x, }
+repeatCount	{// packet A { u8 x, }
+@leftPad ( '\x00'
+) repeat u8x MetaDataX `crlf
+line`,
     repeat
-{ u64 chars // a // b
-,char[] lengthOf `// not a comment`
-    , //	t
+    char[] MetaDataX")).
+Eval vm_compute in ("<<<M4030>>>" ++ check (runes_of_ascii "MetaData
+metadata
+{}
+
+MetaData rootA {
+    i8
+i64_,  roots
+options1 // c
+`a\`
+
+    , lengthOf
+
+Header
+
+, Z9_ Foo  ,	int16 
+BodyLength 
+, } ")).
+Eval vm_compute in ("<<<M4089>>>" ++ check (runes_of_ascii "MetaData metadata {
+}
+
+// c
+MetaData rootA {
+    i8 i64_,
+    roots options1 `a\`,
+    lengthOf Header,
+    Z9_ Foo,
+    int16 BodyLength,
 }")).
-Eval vm_compute in ("<<<M913>>>" ++ check (runes_of_ascii "packet A {
+Eval vm_compute in ("<<<M486>>>" ++ check (runes_of_ascii "MetaData
+Logon { body string_ , uint8 i64_`two words`,Pad x_y_z `it's`,uint16 roots
+    `two words`,x_y_z u8x ,
+float64  asx `u8 x,` ,
+}")).
+Eval vm_compute in ("<<<M4333>>>" ++ check (runes_of_ascii "// c
+	root  packet
+repeatCount
+
+{  //	t
+
+	@tag(
+	42)roots , }
+MetaData As {
+
+} MetaData 
+repeatCount  // packet A { u8 x, }
+  {
+}
+")).
+Eval vm_compute in ("<<<M4152>>>" ++ check (runes_of_ascii "//	t
+MetaData rootA {
+    Header int,
+    string_ asx,
+    string roots,
+    string lengthOf,
+    char[3] Z9_,
+    o metadata,
+}")).
+Eval vm_compute in ("<<<M3271>>>" ++ check (runes_of_ascii "MetaData metadata { } MetaData
+// c
+rootA { i8 i64_ , roots options1 `a\` , lengthOf Header , Z9_ Foo , int16 BodyLength , }")).
+Eval vm_compute in ("<<<M3303>>>" ++ check (runes_of_ascii "MetaData metadata { } MetaData rootA { i8 i64_ , roots options1 `a\` , lengthOf Header , Z9_ Foo , int16
+// c
+BodyLength , }")).
+Eval vm_compute in ("<<<M1350>>>" ++ check (runes_of_ascii "packet rootA{ @tag(
+42 )string_ @lengthOf(rootA
+    ),repeat uint32 float , @lengthOf( Z9_ ) repeat body
+leftPad,  } //")).
+Eval vm_compute in ("<<<M3890>>>" ++ check (runes_of_ascii "options  // a // b
+	{
+Logon 
+=	char[]
+    ;
+
+    }
+options
+	{ BodyLength=' ';
+	tag	=  3
+
+} // `tick` ""quote"" 'q'")).
+Eval vm_compute in ("<<<M4436>>>" ++ check (runes_of_ascii "// top
+packet o {
+    // c2
+    @tag(4294967296)
+    // c5
+    options1 @lengthOf(u8x) `" ++ [233]%N ++ runes_of_ascii "`,
+    // c11
+}
+// c12")).
+Eval vm_compute in ("<<<M3342>>>" ++ check (runes_of_ascii "MetaData float { uint8 BodyLength , } MetaData charz { float32 trueish `a\` // c
+, i16 metadata `say ""hi""` , }")).
+Eval vm_compute in ("<<<M483>>>" ++ check (runes_of_ascii "MetaData body { string matchKey ``,  }root packet BodyLength{ } root packet
+Z9_ // " ++ [128512]%N ++ runes_of_ascii " emoji
+{
+    //x
+    }")).
+Eval vm_compute in ("<<<M3038>>>" ++ check (runes_of_ascii "packet A {
+    u16 len @lengthOf(body) `
+`,
+    u32 crc @calculatedFrom(""CRC32"") `
+`,
+    string body,
+}")).
+Eval vm_compute in ("<<<M795>>>" ++ check (runes_of_ascii "root packet falsey { repeat roots { u16
+matchKey @calculatedFrom(
+""" ++ [128512]%N ++ runes_of_ascii """
+    ) `two words` , } ,
+    }
+")).
+Eval vm_compute in ("<<<M2992>>>" ++ check (runes_of_ascii "packet A {
   match k as n {
-    [""a"", ""bb"", 007, ""d"", ""e"", 66, ""g"", ""h"", 9, ""j"", ""k"", 12] : B,
+    [""a"", 22, ""c c"", 4, ""e"", 66, ""g"", 8, ""i"", 10] : B
     2 : C
   },
 }")).
-Eval vm_compute in ("<<<M1803>>>" ++ check (runes_of_ascii "// c
-packet calculatedFrom {
-    @tag(4294967296)
-    u msg_type,
-    char[3] crc @lengthOf(len) `u8 x,`,
-}")).
-Eval vm_compute in ("<<<M1255>>>" ++ check (runes_of_ascii "packet calculatedFrom // c
-{ @tag( 4294967296 ) u msg_type , char[ 3 ] crc @lengthOf( len ) `u8 x,` , }")).
-Eval vm_compute in ("<<<M1287>>>" ++ check (runes_of_ascii "packet calculatedFrom { @tag( 4294967296 ) u msg_type , char[ 3 ] crc @lengthOf( len ) `u8 x,` , // c
-}")).
-Eval vm_compute in ("<<<M1546>>>" ++ check (runes_of_ascii "
-MetaData 
-    // trailing space 
-	  matchKey	{  u64 chars// a // b
-,
-char[]lengthOf
-,	//	t
-  }")).
-Eval vm_compute in ("<<<M1133>>>" ++ check (runes_of_ascii "packet Logon
-// c
-{ @tag( 42 ) @rightPad ( ' ' ) @leftPad ( ) repeat trueish { string T , } , }")).
-Eval vm_compute in ("<<<M1165>>>" ++ check (runes_of_ascii "packet Logon { @tag( 42 ) @rightPad ( ' ' ) @leftPad ( ) repeat trueish { string T
-// c
-, } , }")).
-Eval vm_compute in ("<<<M339>>>" ++ check (runes_of_ascii "MetaData Z9_ {
-//	t
-// " ++ [27880; 37322]%N ++ runes_of_ascii "
-u128 Foo  , lengthOf uint8x
-    // " ++ [128512]%N ++ runes_of_ascii " emoji
-    `say ""hi""` ,
-    }")).
-Eval vm_compute in ("<<<M1863>>>" ++ check (runes_of_ascii "packet
-
-    A
-
-{  match k as
-
-n
-
-{
-
-[
-""a""
-    , ""bb""  , 007 
-]  : B	,
-2	: C 
-}
-	,
-
-}
-
-")).
-Eval vm_compute in ("<<<M1969>>>" ++ check (runes_of_ascii "packet A {
-    B b `
-        x`,
-    B `
-        x`,
-    repeat B bs `
-        x`,
-}")).
-Eval vm_compute in ("<<<M1216>>>" ++ check (runes_of_ascii "packet o { @tag( 42 // c
-) repeat x { char[ 0123456789 ] i64_ , } , } options { }")).
-Eval vm_compute in ("<<<M1633>>>" ++ check (runes_of_ascii "packet A {
-    match k as n {
-        [1, ""bb"", 007] : B,
-        2 : C,
-    },
-}")).
-Eval vm_compute in ("<<<M1396>>>" ++ check (runes_of_ascii "packet
-    orderItem  { u8 a	,
-} root
-packet newOrder{	orderItem	, u8 x	,}
-")).
-Eval vm_compute in ("<<<M1338>>>" ++ check (runes_of_ascii "packet Inner {
+Eval vm_compute in ("<<<M3682>>>" ++ check (runes_of_ascii "packet B {
     u8 a,
+    string s,
 }
+
 root packet P {
-    Inner ref_obj,
+    u16 L @lengthOf(B),
+    B,
+    u8 t,
+}")).
+Eval vm_compute in ("<<<M1412>>>" ++ check (runes_of_ascii "root packet SimpleMessage {
+    uint16 MsgType `" ++ [28040; 24687; 31867; 22411]%N ++ runes_of_ascii "`,
+    string JsonBody `Json" ++ [23383; 31526; 20018; 28040; 24687; 20307]%N ++ runes_of_ascii "`,
+}")).
+Eval vm_compute in ("<<<M1109>>>" ++ check (runes_of_ascii "
+packet x{
+@rightPad ( '0' ) int32 T @calculatedFrom(""a\\"" ) , // packet A { u8 x, }
+} 	 ")).
+Eval vm_compute in ("<<<M2278>>>" ++ check ([233]%N ++ runes_of_ascii "MetaData _x {string x `// not a comment` , string
+i64_ // trailing space 
+`a\` ,
+    }
+")).
+Eval vm_compute in ("<<<M2252>>>" ++ check (runes_of_ascii "MetaData _x {string x `// not a comment` , string
+root // trailing space 
+`a\` ,
+    }
+")).
+Eval vm_compute in ("<<<M3901>>>" ++ check (runes_of_ascii "packet
+o{
+	@tag( 4294967296
+	) options1
+@lengthOf( 
+    // c
+    	u8x
+)
+`" ++ [233]%N ++ runes_of_ascii "`
+
+,
+}
+
+")).
+Eval vm_compute in ("<<<M3643>>>" ++ check (runes_of_ascii "packet A {
+    B b `x
+        `,
+    B `x
+        `,
+    repeat B bs `x
+        `,
+}")).
+Eval vm_compute in ("<<<M1828>>>" ++ check (runes_of_ascii "options { } packet Packet{char[] i64_ ,
+@tag(
+    255) match
+crc as i8i8{""{,}"" ")).
+Eval vm_compute in ("<<<M256>>>" ++ check (runes_of_ascii "MetaData
+u128 { f64 Foo , } MetaData calculatedFrom{ i32 len
+    // " ++ [27880; 37322]%N ++ runes_of_ascii "
+    , }
+")).
+Eval vm_compute in ("<<<M2385>>>" ++ check (runes_of_ascii "
+packet MetaDataX
+{
+    @leftPad
+( // a // b
+'0'
+) i8 u @lengthOf(
+MetaDataX")).
+Eval vm_compute in ("<<<M3375>>>" ++ check (runes_of_ascii "MetaData _x { f64 charz `tab	here`
+// c
+, } options { BodyLength = """ ++ [233]%N ++ runes_of_ascii "t" ++ [233]%N ++ runes_of_ascii """ ; }")).
+Eval vm_compute in ("<<<M765>>>" ++ check (runes_of_ascii "MetaData len {metadata int ,} root packet
+falsey //x
+{// trailing space 
+}")).
+Eval vm_compute in ("<<<M646>>>" ++ check (runes_of_ascii "
+packet	u { @rightPad
+( ' ' ) char[  0
+    ]
+stringy , }packet _x {}
+")).
+Eval vm_compute in ("<<<M3427>>>" ++ check (runes_of_ascii "packet o { @tag( 4294967296 ) options1 @lengthOf( u8x ) `" ++ [233]%N ++ runes_of_ascii "` , }
+// c
+")).
+Eval vm_compute in ("<<<M3421>>>" ++ check (runes_of_ascii "packet o { @tag( 4294967296 ) options1 @lengthOf( u8x )
+// c
+`" ++ [233]%N ++ runes_of_ascii "` , }")).
+Eval vm_compute in ("<<<M2779>>>" ++ check (runes_of_ascii "00 uint32 packet i16 { repeatCount '\x00' i8 [ repeatCount float32")).
+Eval vm_compute in ("<<<M4506>>>" ++ check (runes_of_ascii "
+packet
+
+    A  {B b
+
+`
+`	,
+B
+	`
+`
+	, 
+repeat B
+	bs `
+`	,
+	}
+")).
+Eval vm_compute in ("<<<M2885>>>" ++ check (runes_of_ascii "packet A {
+  match k as n {
+    [1, 22] : B,
+    2 : C
+  },
+}")).
+Eval vm_compute in ("<<<M1124>>>" ++ check (runes_of_ascii "// packet A { u8 x, }
+root packet
+Z9_{
+    } // @lengthOf(")).
+Eval vm_compute in ("<<<M2881>>>" ++ check (runes_of_ascii "packet A {
+  match k as n {
+    [1] : B
+    2 : C
+  },
+}")).
+Eval vm_compute in ("<<<M4103>>>" ++ check (runes_of_ascii "// packet A { u8 x, }
+root packet Z9_ {
+}// @lengthOf(")).
+Eval vm_compute in ("<<<M2316>>>" ++ check (runes_of_ascii "
+MetaData Pad{
+u32 rootA @calculatedFrom( ,
+    }
+")).
+Eval vm_compute in ("<<<M2300>>>" ++ check (runes_of_ascii "
+MetaData Pad u32
+{ rootA `line1
+line2` ,
+    }
+")).
+Eval vm_compute in ("<<<M3437>>>" ++ check (runes_of_ascii "root packet P {
+    repeat char cs,
     u8 x,
 }
 ")).
-Eval vm_compute in ("<<<M1328>>>" ++ check (runes_of_ascii "MetaData _x { zchar[ 4294967296 ] lengthOf `// not a comment` , }
-// c
+Eval vm_compute in ("<<<M1387>>>" ++ check (runes_of_ascii "packet //x
+MetaDataX {uint32 A `say ""hi""` ,}")).
+Eval vm_compute in ("<<<M1168>>>" ++ check (runes_of_ascii "options {falsey=
+    ' ';roots = false ; }
 ")).
-Eval vm_compute in ("<<<M797>>>" ++ check (runes_of_ascii "packet A {
-  match k as n {
-    [""a"", ""bb"", 007] : B
-    2 : C
-  },
+Eval vm_compute in ("<<<M2842>>>" ++ check (runes_of_ascii "match repeat uint8 as string false repeat")).
+Eval vm_compute in ("<<<M3243>>>" ++ check (runes_of_ascii "MetaData zchar { zchar[ 3 ] // c
+Pad , }")).
+Eval vm_compute in ("<<<M4476>>>" ++ check (runes_of_ascii "packet MetaDataX {
+    // @lengthOf(
 }")).
-Eval vm_compute in ("<<<M2028>>>" ++ check (runes_of_ascii "packet A { match 
-k as n {	[  1
-	,22  , 007 ]
-:
+Eval vm_compute in ("<<<M2836>>>" ++ check (runes_of_ascii "@|""M" ++ [65533; 65533; 65533]%N ++ runes_of_ascii "[|" ++ [65533]%N ++ runes_of_ascii "0" ++ [65533; 65533; 65533; 65533; 65533]%N ++ runes_of_ascii "fJ" ++ [65533; 65533; 65533; 65533; 8; 2]%N ++ runes_of_ascii "z" ++ [65533; 65533; 65533; 65533; 65533; 65533; 5; 7]%N ++ runes_of_ascii "dL" ++ [65533]%N)).
+Eval vm_compute in ("<<<M164>>>" ++ check (runes_of_ascii "packet
+    // 50% %s
+    u128 { }
+")).
+Eval vm_compute in ("<<<M2856>>>" ++ check (runes_of_ascii "X" ++ [65533; 23; 6; 1; 65533; 65533; 65533; 65533]%N ++ runes_of_ascii "`V" ++ [65533; 65533]%N ++ runes_of_ascii "F" ++ [127; 65533; 65533; 65533; 65533]%N ++ runes_of_ascii "Y" ++ [65533; 65533]%N ++ runes_of_ascii "?" ++ [65533]%N ++ runes_of_ascii "h" ++ [36827]%N ++ runes_of_ascii "{0n" ++ [65533; 65533; 65533]%N ++ runes_of_ascii "'")).
+Eval vm_compute in ("<<<M3041>>>" ++ check (runes_of_ascii "root packet A {
+    u8 x `
+`,
+}")).
+Eval vm_compute in ("<<<M1017>>>" ++ check (runes_of_ascii "// `tick` ""quote"" 'q'
 
-B
-	,  2
-:	C }
-,}")).
-Eval vm_compute in ("<<<M228>>>" ++ check (runes_of_ascii "packet Z9_
-    { body MetaDataX , } MetaData asx  {
-} //	t")).
-Eval vm_compute in ("<<<M277>>>" ++ check (runes_of_ascii "  MetaData/// triple
-pack{
-i64 Header
-, u64
-As
-,
-}
+// " ++ [27880; 37322]%N ++ runes_of_ascii "
 ")).
-Eval vm_compute in ("<<<M600>>>" ++ check (runes_of_ascii "MetaData
-    // trailing space 
-    matchKey")).
-Eval vm_compute in ("<<<M1108>>>" ++ check (runes_of_ascii "MetaData zchar { // c
-zchar[ 3 ] Pad , }")).
-Eval vm_compute in ("<<<M1811>>>" ++ check (runes_of_ascii "  packet 
-A{
-	u8
-x
-`d" ++ [8192]%N ++ runes_of_ascii "`, 	 // c" ++ [8192]%N ++ runes_of_ascii "
-} ")).
-Eval vm_compute in ("<<<M1042>>>" ++ check (runes_of_ascii "packet A {
- u8 x `d 	`, // c 	
+Eval vm_compute in ("<<<M2610>>>" ++ check (runes_of_ascii "packet A { x @lengthOf(), }")).
+Eval vm_compute in ("<<<M3036>>>" ++ check (runes_of_ascii "packet A {
+    u8 x `
+`,
 }")).
-Eval vm_compute in ("<<<M1007>>>" ++ check (runes_of_ascii "packet A {
- u8 x `d" ++ [8202]%N ++ runes_of_ascii "`, // c" ++ [8202]%N ++ runes_of_ascii "
+Eval vm_compute in ("<<<M2330>>>" ++ check (runes_of_ascii "
+MetaData Pad{
+u32 root")).
+Eval vm_compute in ("<<<M2658>>>" ++ check (runes_of_ascii "root root packet A { }")).
+Eval vm_compute in ("<<<M2686>>>" ++ check (runes_of_ascii "options { a = [1]; }")).
+Eval vm_compute in ("<<<M3190>>>" ++ check (runes_of_ascii "// c x
+packet A {
 }")).
-Eval vm_compute in ("<<<M1804>>>" ++ check (runes_of_ascii "options {
-    u8x = 3// c
+Eval vm_compute in ("<<<M3150>>>" ++ check (runes_of_ascii "// c" ++ [8239]%N ++ runes_of_ascii "
+packet A {
 }")).
-Eval vm_compute in ("<<<M1296>>>" ++ check (runes_of_ascii "packet // c
-lengthOf { }")).
-Eval vm_compute in ("<<<M1714>>>" ++ check (runes_of_ascii "packet	A
-{
-}// c" ++ [65279]%N ++ runes_of_ascii "
-")).
-Eval vm_compute in ("<<<M1020>>>" ++ check (runes_of_ascii "packet A {
-}
-// c" ++ [8239]%N)).
-Eval vm_compute in ("<<<M1013>>>" ++ check (runes_of_ascii "packet A {
-}// c" ++ [8233]%N)).
-Eval vm_compute in ("<<<M233>>>" ++ check (runes_of_ascii " // a // b")).
-Eval vm_compute in ("<<<M1049>>>" ++ check (runes_of_ascii "// c" ++ [65279]%N)).
+Eval vm_compute in ("<<<M2654>>>" ++ check (runes_of_ascii "packet A { } // c")).
+Eval vm_compute in ("<<<M1865>>>" ++ check (runes_of_ascii "packet	packetx {")).
+Eval vm_compute in ("<<<M1187>>>" ++ check (runes_of_ascii " // @lengthOf(")).
+Eval vm_compute in ("<<<M2578>>>" ++ check (runes_of_ascii """" ++ [233]%N ++ runes_of_ascii """ `" ++ [21517]%N ++ runes_of_ascii "` // " ++ [252]%N)).
+Eval vm_compute in ("<<<M2830>>>" ++ check (runes_of_ascii "[ MetaData")).
+Eval vm_compute in ("<<<M2445>>>" ++ check (runes_of_ascii "char[ ]")).
+Eval vm_compute in ("<<<M2492>>>" ++ check (runes_of_ascii "'\x00'")).
+Eval vm_compute in ("<<<M3103>>>" ++ check (runes_of_ascii "// c ")).
+Eval vm_compute in ("<<<M2542>>>" ++ check (runes_of_ascii "`
+`")).
+Eval vm_compute in ("<<<M2547>>>" ++ check (runes_of_ascii "007")).
+Eval vm_compute in ("<<<M2556>>>" ++ check (runes_of_ascii "_1")).
+Eval vm_compute in ("<<<M2744>>>" ++ check ([65533]%N)).
